@@ -7,446 +7,447 @@ import Tetl.C14.Gen
 namespace Tetl.C14.GenDispatch
 open Tetl.C14
 
-def g (ok : Bool) (v : String) : String := if ok then v else "ub"
+/-- the value is evaluated only when the obligation holds (a shift by an unchecked count would be astronomically large) -/
+@[noinline] def g (ok : Bool) (v : Unit → String) : String := if ok then v () else "ub"
 def sb (x : Bool) : String := if x then "1" else "0"
 
 def u_bit_width (ty : String) (a : Int) : Option String :=
   match ty with
-  | "u8" => some (g (Gen.bit_width_u8_ub a) (toString (Gen.bit_width_u8 a)))
-  | "u16" => some (g (Gen.bit_width_u16_ub a) (toString (Gen.bit_width_u16 a)))
-  | "u32" => some (g (Gen.bit_width_u32_ub a) (toString (Gen.bit_width_u32 a)))
-  | "u64" => some (g (Gen.bit_width_u64_ub a) (toString (Gen.bit_width_u64 a)))
+  | "u8" => some (g (Gen.bit_width_u8_ub a) (fun _ => toString (Gen.bit_width_u8 a)))
+  | "u16" => some (g (Gen.bit_width_u16_ub a) (fun _ => toString (Gen.bit_width_u16 a)))
+  | "u32" => some (g (Gen.bit_width_u32_ub a) (fun _ => toString (Gen.bit_width_u32 a)))
+  | "u64" => some (g (Gen.bit_width_u64_ub a) (fun _ => toString (Gen.bit_width_u64 a)))
   | _ => none
 
 def u_bit_ceil (ty : String) (a : Int) : Option String :=
   match ty with
-  | "u8" => some (g (Gen.bit_ceil_u8_ub a) (toString (Gen.bit_ceil_u8 a)))
-  | "u16" => some (g (Gen.bit_ceil_u16_ub a) (toString (Gen.bit_ceil_u16 a)))
-  | "u32" => some (g (Gen.bit_ceil_u32_ub a) (toString (Gen.bit_ceil_u32 a)))
-  | "u64" => some (g (Gen.bit_ceil_u64_ub a) (toString (Gen.bit_ceil_u64 a)))
+  | "u8" => some (g (Gen.bit_ceil_u8_ub a) (fun _ => toString (Gen.bit_ceil_u8 a)))
+  | "u16" => some (g (Gen.bit_ceil_u16_ub a) (fun _ => toString (Gen.bit_ceil_u16 a)))
+  | "u32" => some (g (Gen.bit_ceil_u32_ub a) (fun _ => toString (Gen.bit_ceil_u32 a)))
+  | "u64" => some (g (Gen.bit_ceil_u64_ub a) (fun _ => toString (Gen.bit_ceil_u64 a)))
   | _ => none
 
 def u_bit_floor (ty : String) (a : Int) : Option String :=
   match ty with
-  | "u8" => some (g (Gen.bit_floor_u8_ub a) (toString (Gen.bit_floor_u8 a)))
-  | "u16" => some (g (Gen.bit_floor_u16_ub a) (toString (Gen.bit_floor_u16 a)))
-  | "u32" => some (g (Gen.bit_floor_u32_ub a) (toString (Gen.bit_floor_u32 a)))
-  | "u64" => some (g (Gen.bit_floor_u64_ub a) (toString (Gen.bit_floor_u64 a)))
+  | "u8" => some (g (Gen.bit_floor_u8_ub a) (fun _ => toString (Gen.bit_floor_u8 a)))
+  | "u16" => some (g (Gen.bit_floor_u16_ub a) (fun _ => toString (Gen.bit_floor_u16 a)))
+  | "u32" => some (g (Gen.bit_floor_u32_ub a) (fun _ => toString (Gen.bit_floor_u32 a)))
+  | "u64" => some (g (Gen.bit_floor_u64_ub a) (fun _ => toString (Gen.bit_floor_u64 a)))
   | _ => none
 
 def u_abs (ty : String) (a : Int) : Option String :=
   match ty with
-  | "u8" => some (g (Gen.abs_u8_ub a) (toString (Gen.abs_u8 a)))
-  | "u16" => some (g (Gen.abs_u16_ub a) (toString (Gen.abs_u16 a)))
-  | "u32" => some (g (Gen.abs_u32_ub a) (toString (Gen.abs_u32 a)))
-  | "u64" => some (g (Gen.abs_u64_ub a) (toString (Gen.abs_u64 a)))
-  | "i8" => some (g (Gen.abs_i8_ub a) (toString (Gen.abs_i8 a)))
-  | "i16" => some (g (Gen.abs_i16_ub a) (toString (Gen.abs_i16 a)))
-  | "i32" => some (g (Gen.abs_i32_ub a) (toString (Gen.abs_i32 a)))
-  | "i64" => some (g (Gen.abs_i64_ub a) (toString (Gen.abs_i64 a)))
+  | "u8" => some (g (Gen.abs_u8_ub a) (fun _ => toString (Gen.abs_u8 a)))
+  | "u16" => some (g (Gen.abs_u16_ub a) (fun _ => toString (Gen.abs_u16 a)))
+  | "u32" => some (g (Gen.abs_u32_ub a) (fun _ => toString (Gen.abs_u32 a)))
+  | "u64" => some (g (Gen.abs_u64_ub a) (fun _ => toString (Gen.abs_u64 a)))
+  | "i8" => some (g (Gen.abs_i8_ub a) (fun _ => toString (Gen.abs_i8 a)))
+  | "i16" => some (g (Gen.abs_i16_ub a) (fun _ => toString (Gen.abs_i16 a)))
+  | "i32" => some (g (Gen.abs_i32_ub a) (fun _ => toString (Gen.abs_i32 a)))
+  | "i64" => some (g (Gen.abs_i64_ub a) (fun _ => toString (Gen.abs_i64 a)))
   | _ => none
 
 def u_byteswap_fb (ty : String) (a : Int) : Option String :=
   match ty with
-  | "u16" => some (g (Gen.byteswap_fallback_u16_ub a) (toString (Gen.byteswap_fallback_u16 a)))
-  | "u32" => some (g (Gen.byteswap_fallback_u32_ub a) (toString (Gen.byteswap_fallback_u32 a)))
-  | "u64" => some (g (Gen.byteswap_fallback_u64_ub a) (toString (Gen.byteswap_fallback_u64 a)))
+  | "u16" => some (g (Gen.byteswap_fallback_u16_ub a) (fun _ => toString (Gen.byteswap_fallback_u16 a)))
+  | "u32" => some (g (Gen.byteswap_fallback_u32_ub a) (fun _ => toString (Gen.byteswap_fallback_u32 a)))
+  | "u64" => some (g (Gen.byteswap_fallback_u64_ub a) (fun _ => toString (Gen.byteswap_fallback_u64 a)))
   | _ => none
 
 def u_has_single_bit (ty : String) (a : Int) : Option String :=
   match ty with
-  | "u8" => some (g (Gen.has_single_bit_u8_ub a) (sb (Gen.has_single_bit_u8 a)))
-  | "u16" => some (g (Gen.has_single_bit_u16_ub a) (sb (Gen.has_single_bit_u16 a)))
-  | "u32" => some (g (Gen.has_single_bit_u32_ub a) (sb (Gen.has_single_bit_u32 a)))
-  | "u64" => some (g (Gen.has_single_bit_u64_ub a) (sb (Gen.has_single_bit_u64 a)))
+  | "u8" => some (g (Gen.has_single_bit_u8_ub a) (fun _ => sb (Gen.has_single_bit_u8 a)))
+  | "u16" => some (g (Gen.has_single_bit_u16_ub a) (fun _ => sb (Gen.has_single_bit_u16 a)))
+  | "u32" => some (g (Gen.has_single_bit_u32_ub a) (fun _ => sb (Gen.has_single_bit_u32 a)))
+  | "u64" => some (g (Gen.has_single_bit_u64_ub a) (fun _ => sb (Gen.has_single_bit_u64 a)))
   | _ => none
 
 def b_rotl (ty : String) (a y : Int) : Option String :=
   match ty with
-  | "u8" => some (g (Gen.rotl_u8_ub a y) (toString (Gen.rotl_u8 a y)))
-  | "u16" => some (g (Gen.rotl_u16_ub a y) (toString (Gen.rotl_u16 a y)))
-  | "u32" => some (g (Gen.rotl_u32_ub a y) (toString (Gen.rotl_u32 a y)))
-  | "u64" => some (g (Gen.rotl_u64_ub a y) (toString (Gen.rotl_u64 a y)))
+  | "u8" => some (g (Gen.rotl_u8_ub a y) (fun _ => toString (Gen.rotl_u8 a y)))
+  | "u16" => some (g (Gen.rotl_u16_ub a y) (fun _ => toString (Gen.rotl_u16 a y)))
+  | "u32" => some (g (Gen.rotl_u32_ub a y) (fun _ => toString (Gen.rotl_u32 a y)))
+  | "u64" => some (g (Gen.rotl_u64_ub a y) (fun _ => toString (Gen.rotl_u64 a y)))
   | _ => none
 
 def b_rotr (ty : String) (a y : Int) : Option String :=
   match ty with
-  | "u8" => some (g (Gen.rotr_u8_ub a y) (toString (Gen.rotr_u8 a y)))
-  | "u16" => some (g (Gen.rotr_u16_ub a y) (toString (Gen.rotr_u16 a y)))
-  | "u32" => some (g (Gen.rotr_u32_ub a y) (toString (Gen.rotr_u32 a y)))
-  | "u64" => some (g (Gen.rotr_u64_ub a y) (toString (Gen.rotr_u64 a y)))
+  | "u8" => some (g (Gen.rotr_u8_ub a y) (fun _ => toString (Gen.rotr_u8 a y)))
+  | "u16" => some (g (Gen.rotr_u16_ub a y) (fun _ => toString (Gen.rotr_u16 a y)))
+  | "u32" => some (g (Gen.rotr_u32_ub a y) (fun _ => toString (Gen.rotr_u32 a y)))
+  | "u64" => some (g (Gen.rotr_u64_ub a y) (fun _ => toString (Gen.rotr_u64 a y)))
   | _ => none
 
 def b_set_bit (ty : String) (a y : Int) : Option String :=
   match ty with
-  | "u8" => some (g (Gen.set_bit_u8_ub a y) (toString (Gen.set_bit_u8 a y)))
-  | "u16" => some (g (Gen.set_bit_u16_ub a y) (toString (Gen.set_bit_u16 a y)))
-  | "u32" => some (g (Gen.set_bit_u32_ub a y) (toString (Gen.set_bit_u32 a y)))
-  | "u64" => some (g (Gen.set_bit_u64_ub a y) (toString (Gen.set_bit_u64 a y)))
+  | "u8" => some (g (Gen.set_bit_u8_ub a y) (fun _ => toString (Gen.set_bit_u8 a y)))
+  | "u16" => some (g (Gen.set_bit_u16_ub a y) (fun _ => toString (Gen.set_bit_u16 a y)))
+  | "u32" => some (g (Gen.set_bit_u32_ub a y) (fun _ => toString (Gen.set_bit_u32 a y)))
+  | "u64" => some (g (Gen.set_bit_u64_ub a y) (fun _ => toString (Gen.set_bit_u64 a y)))
   | _ => none
 
 def b_reset_bit (ty : String) (a y : Int) : Option String :=
   match ty with
-  | "u8" => some (g (Gen.reset_bit_u8_ub a y) (toString (Gen.reset_bit_u8 a y)))
-  | "u16" => some (g (Gen.reset_bit_u16_ub a y) (toString (Gen.reset_bit_u16 a y)))
-  | "u32" => some (g (Gen.reset_bit_u32_ub a y) (toString (Gen.reset_bit_u32 a y)))
-  | "u64" => some (g (Gen.reset_bit_u64_ub a y) (toString (Gen.reset_bit_u64 a y)))
+  | "u8" => some (g (Gen.reset_bit_u8_ub a y) (fun _ => toString (Gen.reset_bit_u8 a y)))
+  | "u16" => some (g (Gen.reset_bit_u16_ub a y) (fun _ => toString (Gen.reset_bit_u16 a y)))
+  | "u32" => some (g (Gen.reset_bit_u32_ub a y) (fun _ => toString (Gen.reset_bit_u32 a y)))
+  | "u64" => some (g (Gen.reset_bit_u64_ub a y) (fun _ => toString (Gen.reset_bit_u64 a y)))
   | _ => none
 
 def b_flip_bit (ty : String) (a y : Int) : Option String :=
   match ty with
-  | "u8" => some (g (Gen.flip_bit_u8_ub a y) (toString (Gen.flip_bit_u8 a y)))
-  | "u16" => some (g (Gen.flip_bit_u16_ub a y) (toString (Gen.flip_bit_u16 a y)))
-  | "u32" => some (g (Gen.flip_bit_u32_ub a y) (toString (Gen.flip_bit_u32 a y)))
-  | "u64" => some (g (Gen.flip_bit_u64_ub a y) (toString (Gen.flip_bit_u64 a y)))
+  | "u8" => some (g (Gen.flip_bit_u8_ub a y) (fun _ => toString (Gen.flip_bit_u8 a y)))
+  | "u16" => some (g (Gen.flip_bit_u16_ub a y) (fun _ => toString (Gen.flip_bit_u16 a y)))
+  | "u32" => some (g (Gen.flip_bit_u32_ub a y) (fun _ => toString (Gen.flip_bit_u32 a y)))
+  | "u64" => some (g (Gen.flip_bit_u64_ub a y) (fun _ => toString (Gen.flip_bit_u64 a y)))
   | _ => none
 
 def b_add_sat (ty : String) (a y : Int) : Option String :=
   match ty with
-  | "u8" => some (g (Gen.add_sat_u8_ub a y) (toString (Gen.add_sat_u8 a y)))
-  | "u16" => some (g (Gen.add_sat_u16_ub a y) (toString (Gen.add_sat_u16 a y)))
-  | "u32" => some (g (Gen.add_sat_u32_ub a y) (toString (Gen.add_sat_u32 a y)))
-  | "u64" => some (g (Gen.add_sat_u64_ub a y) (toString (Gen.add_sat_u64 a y)))
-  | "i8" => some (g (Gen.add_sat_i8_ub a y) (toString (Gen.add_sat_i8 a y)))
-  | "i16" => some (g (Gen.add_sat_i16_ub a y) (toString (Gen.add_sat_i16 a y)))
-  | "i32" => some (g (Gen.add_sat_i32_ub a y) (toString (Gen.add_sat_i32 a y)))
-  | "i64" => some (g (Gen.add_sat_i64_ub a y) (toString (Gen.add_sat_i64 a y)))
+  | "u8" => some (g (Gen.add_sat_u8_ub a y) (fun _ => toString (Gen.add_sat_u8 a y)))
+  | "u16" => some (g (Gen.add_sat_u16_ub a y) (fun _ => toString (Gen.add_sat_u16 a y)))
+  | "u32" => some (g (Gen.add_sat_u32_ub a y) (fun _ => toString (Gen.add_sat_u32 a y)))
+  | "u64" => some (g (Gen.add_sat_u64_ub a y) (fun _ => toString (Gen.add_sat_u64 a y)))
+  | "i8" => some (g (Gen.add_sat_i8_ub a y) (fun _ => toString (Gen.add_sat_i8 a y)))
+  | "i16" => some (g (Gen.add_sat_i16_ub a y) (fun _ => toString (Gen.add_sat_i16 a y)))
+  | "i32" => some (g (Gen.add_sat_i32_ub a y) (fun _ => toString (Gen.add_sat_i32 a y)))
+  | "i64" => some (g (Gen.add_sat_i64_ub a y) (fun _ => toString (Gen.add_sat_i64 a y)))
   | _ => none
 
 def b_div_sat (ty : String) (a y : Int) : Option String :=
   match ty with
-  | "u8" => some (g (Gen.div_sat_u8_ub a y) (toString (Gen.div_sat_u8 a y)))
-  | "u16" => some (g (Gen.div_sat_u16_ub a y) (toString (Gen.div_sat_u16 a y)))
-  | "u32" => some (g (Gen.div_sat_u32_ub a y) (toString (Gen.div_sat_u32 a y)))
-  | "u64" => some (g (Gen.div_sat_u64_ub a y) (toString (Gen.div_sat_u64 a y)))
-  | "i8" => some (g (Gen.div_sat_i8_ub a y) (toString (Gen.div_sat_i8 a y)))
-  | "i16" => some (g (Gen.div_sat_i16_ub a y) (toString (Gen.div_sat_i16 a y)))
-  | "i32" => some (g (Gen.div_sat_i32_ub a y) (toString (Gen.div_sat_i32 a y)))
-  | "i64" => some (g (Gen.div_sat_i64_ub a y) (toString (Gen.div_sat_i64 a y)))
+  | "u8" => some (g (Gen.div_sat_u8_ub a y) (fun _ => toString (Gen.div_sat_u8 a y)))
+  | "u16" => some (g (Gen.div_sat_u16_ub a y) (fun _ => toString (Gen.div_sat_u16 a y)))
+  | "u32" => some (g (Gen.div_sat_u32_ub a y) (fun _ => toString (Gen.div_sat_u32 a y)))
+  | "u64" => some (g (Gen.div_sat_u64_ub a y) (fun _ => toString (Gen.div_sat_u64 a y)))
+  | "i8" => some (g (Gen.div_sat_i8_ub a y) (fun _ => toString (Gen.div_sat_i8 a y)))
+  | "i16" => some (g (Gen.div_sat_i16_ub a y) (fun _ => toString (Gen.div_sat_i16 a y)))
+  | "i32" => some (g (Gen.div_sat_i32_ub a y) (fun _ => toString (Gen.div_sat_i32 a y)))
+  | "i64" => some (g (Gen.div_sat_i64_ub a y) (fun _ => toString (Gen.div_sat_i64 a y)))
   | _ => none
 
 def b_midpoint (ty : String) (a y : Int) : Option String :=
   match ty with
-  | "u8" => some (g (Gen.midpoint_u8_ub a y) (toString (Gen.midpoint_u8 a y)))
-  | "u16" => some (g (Gen.midpoint_u16_ub a y) (toString (Gen.midpoint_u16 a y)))
-  | "u32" => some (g (Gen.midpoint_u32_ub a y) (toString (Gen.midpoint_u32 a y)))
-  | "u64" => some (g (Gen.midpoint_u64_ub a y) (toString (Gen.midpoint_u64 a y)))
-  | "i8" => some (g (Gen.midpoint_i8_ub a y) (toString (Gen.midpoint_i8 a y)))
-  | "i16" => some (g (Gen.midpoint_i16_ub a y) (toString (Gen.midpoint_i16 a y)))
-  | "i32" => some (g (Gen.midpoint_i32_ub a y) (toString (Gen.midpoint_i32 a y)))
-  | "i64" => some (g (Gen.midpoint_i64_ub a y) (toString (Gen.midpoint_i64 a y)))
+  | "u8" => some (g (Gen.midpoint_u8_ub a y) (fun _ => toString (Gen.midpoint_u8 a y)))
+  | "u16" => some (g (Gen.midpoint_u16_ub a y) (fun _ => toString (Gen.midpoint_u16 a y)))
+  | "u32" => some (g (Gen.midpoint_u32_ub a y) (fun _ => toString (Gen.midpoint_u32 a y)))
+  | "u64" => some (g (Gen.midpoint_u64_ub a y) (fun _ => toString (Gen.midpoint_u64 a y)))
+  | "i8" => some (g (Gen.midpoint_i8_ub a y) (fun _ => toString (Gen.midpoint_i8 a y)))
+  | "i16" => some (g (Gen.midpoint_i16_ub a y) (fun _ => toString (Gen.midpoint_i16 a y)))
+  | "i32" => some (g (Gen.midpoint_i32_ub a y) (fun _ => toString (Gen.midpoint_i32 a y)))
+  | "i64" => some (g (Gen.midpoint_i64_ub a y) (fun _ => toString (Gen.midpoint_i64 a y)))
   | _ => none
 
 def b_test_bit (ty : String) (a y : Int) : Option String :=
   match ty with
-  | "u8" => some (g (Gen.test_bit_u8_ub a y) (sb (Gen.test_bit_u8 a y)))
-  | "u16" => some (g (Gen.test_bit_u16_ub a y) (sb (Gen.test_bit_u16 a y)))
-  | "u32" => some (g (Gen.test_bit_u32_ub a y) (sb (Gen.test_bit_u32 a y)))
-  | "u64" => some (g (Gen.test_bit_u64_ub a y) (sb (Gen.test_bit_u64 a y)))
+  | "u8" => some (g (Gen.test_bit_u8_ub a y) (fun _ => sb (Gen.test_bit_u8 a y)))
+  | "u16" => some (g (Gen.test_bit_u16_ub a y) (fun _ => sb (Gen.test_bit_u16 a y)))
+  | "u32" => some (g (Gen.test_bit_u32_ub a y) (fun _ => sb (Gen.test_bit_u32 a y)))
+  | "u64" => some (g (Gen.test_bit_u64_ub a y) (fun _ => sb (Gen.test_bit_u64 a y)))
   | _ => none
 
 def b_set_bit_1 (ty : String) (a y : Int) : Option String :=
   match ty with
-  | "u8" => some (g (Gen.set_bit_to_u8_ub a y true) (toString (Gen.set_bit_to_u8 a y true)))
-  | "u16" => some (g (Gen.set_bit_to_u16_ub a y true) (toString (Gen.set_bit_to_u16 a y true)))
-  | "u32" => some (g (Gen.set_bit_to_u32_ub a y true) (toString (Gen.set_bit_to_u32 a y true)))
-  | "u64" => some (g (Gen.set_bit_to_u64_ub a y true) (toString (Gen.set_bit_to_u64 a y true)))
+  | "u8" => some (g (Gen.set_bit_to_u8_ub a y true) (fun _ => toString (Gen.set_bit_to_u8 a y true)))
+  | "u16" => some (g (Gen.set_bit_to_u16_ub a y true) (fun _ => toString (Gen.set_bit_to_u16 a y true)))
+  | "u32" => some (g (Gen.set_bit_to_u32_ub a y true) (fun _ => toString (Gen.set_bit_to_u32 a y true)))
+  | "u64" => some (g (Gen.set_bit_to_u64_ub a y true) (fun _ => toString (Gen.set_bit_to_u64 a y true)))
   | _ => none
 
 def b_set_bit_0 (ty : String) (a y : Int) : Option String :=
   match ty with
-  | "u8" => some (g (Gen.set_bit_to_u8_ub a y false) (toString (Gen.set_bit_to_u8 a y false)))
-  | "u16" => some (g (Gen.set_bit_to_u16_ub a y false) (toString (Gen.set_bit_to_u16 a y false)))
-  | "u32" => some (g (Gen.set_bit_to_u32_ub a y false) (toString (Gen.set_bit_to_u32 a y false)))
-  | "u64" => some (g (Gen.set_bit_to_u64_ub a y false) (toString (Gen.set_bit_to_u64 a y false)))
+  | "u8" => some (g (Gen.set_bit_to_u8_ub a y false) (fun _ => toString (Gen.set_bit_to_u8 a y false)))
+  | "u16" => some (g (Gen.set_bit_to_u16_ub a y false) (fun _ => toString (Gen.set_bit_to_u16 a y false)))
+  | "u32" => some (g (Gen.set_bit_to_u32_ub a y false) (fun _ => toString (Gen.set_bit_to_u32 a y false)))
+  | "u64" => some (g (Gen.set_bit_to_u64_ub a y false) (fun _ => toString (Gen.set_bit_to_u64 a y false)))
   | _ => none
 
 def p_cmp_u8 (ty : String) (a y : Int) : Option String :=
   match ty with
-  | "u8" => some (g (Gen.cmp_equal_u8_u8_ub a y && Gen.cmp_not_equal_u8_u8_ub a y && Gen.cmp_less_u8_u8_ub a y && Gen.cmp_greater_u8_u8_ub a y && Gen.cmp_less_equal_u8_u8_ub a y && Gen.cmp_greater_equal_u8_u8_ub a y) (String.join [sb (Gen.cmp_equal_u8_u8 a y), sb (Gen.cmp_not_equal_u8_u8 a y), sb (Gen.cmp_less_u8_u8 a y), sb (Gen.cmp_greater_u8_u8 a y), sb (Gen.cmp_less_equal_u8_u8 a y), sb (Gen.cmp_greater_equal_u8_u8 a y)]))
-  | "u16" => some (g (Gen.cmp_equal_u8_u16_ub a y && Gen.cmp_not_equal_u8_u16_ub a y && Gen.cmp_less_u8_u16_ub a y && Gen.cmp_greater_u8_u16_ub a y && Gen.cmp_less_equal_u8_u16_ub a y && Gen.cmp_greater_equal_u8_u16_ub a y) (String.join [sb (Gen.cmp_equal_u8_u16 a y), sb (Gen.cmp_not_equal_u8_u16 a y), sb (Gen.cmp_less_u8_u16 a y), sb (Gen.cmp_greater_u8_u16 a y), sb (Gen.cmp_less_equal_u8_u16 a y), sb (Gen.cmp_greater_equal_u8_u16 a y)]))
-  | "u32" => some (g (Gen.cmp_equal_u8_u32_ub a y && Gen.cmp_not_equal_u8_u32_ub a y && Gen.cmp_less_u8_u32_ub a y && Gen.cmp_greater_u8_u32_ub a y && Gen.cmp_less_equal_u8_u32_ub a y && Gen.cmp_greater_equal_u8_u32_ub a y) (String.join [sb (Gen.cmp_equal_u8_u32 a y), sb (Gen.cmp_not_equal_u8_u32 a y), sb (Gen.cmp_less_u8_u32 a y), sb (Gen.cmp_greater_u8_u32 a y), sb (Gen.cmp_less_equal_u8_u32 a y), sb (Gen.cmp_greater_equal_u8_u32 a y)]))
-  | "u64" => some (g (Gen.cmp_equal_u8_u64_ub a y && Gen.cmp_not_equal_u8_u64_ub a y && Gen.cmp_less_u8_u64_ub a y && Gen.cmp_greater_u8_u64_ub a y && Gen.cmp_less_equal_u8_u64_ub a y && Gen.cmp_greater_equal_u8_u64_ub a y) (String.join [sb (Gen.cmp_equal_u8_u64 a y), sb (Gen.cmp_not_equal_u8_u64 a y), sb (Gen.cmp_less_u8_u64 a y), sb (Gen.cmp_greater_u8_u64 a y), sb (Gen.cmp_less_equal_u8_u64 a y), sb (Gen.cmp_greater_equal_u8_u64 a y)]))
-  | "i8" => some (g (Gen.cmp_equal_u8_i8_ub a y && Gen.cmp_not_equal_u8_i8_ub a y && Gen.cmp_less_u8_i8_ub a y && Gen.cmp_greater_u8_i8_ub a y && Gen.cmp_less_equal_u8_i8_ub a y && Gen.cmp_greater_equal_u8_i8_ub a y) (String.join [sb (Gen.cmp_equal_u8_i8 a y), sb (Gen.cmp_not_equal_u8_i8 a y), sb (Gen.cmp_less_u8_i8 a y), sb (Gen.cmp_greater_u8_i8 a y), sb (Gen.cmp_less_equal_u8_i8 a y), sb (Gen.cmp_greater_equal_u8_i8 a y)]))
-  | "i16" => some (g (Gen.cmp_equal_u8_i16_ub a y && Gen.cmp_not_equal_u8_i16_ub a y && Gen.cmp_less_u8_i16_ub a y && Gen.cmp_greater_u8_i16_ub a y && Gen.cmp_less_equal_u8_i16_ub a y && Gen.cmp_greater_equal_u8_i16_ub a y) (String.join [sb (Gen.cmp_equal_u8_i16 a y), sb (Gen.cmp_not_equal_u8_i16 a y), sb (Gen.cmp_less_u8_i16 a y), sb (Gen.cmp_greater_u8_i16 a y), sb (Gen.cmp_less_equal_u8_i16 a y), sb (Gen.cmp_greater_equal_u8_i16 a y)]))
-  | "i32" => some (g (Gen.cmp_equal_u8_i32_ub a y && Gen.cmp_not_equal_u8_i32_ub a y && Gen.cmp_less_u8_i32_ub a y && Gen.cmp_greater_u8_i32_ub a y && Gen.cmp_less_equal_u8_i32_ub a y && Gen.cmp_greater_equal_u8_i32_ub a y) (String.join [sb (Gen.cmp_equal_u8_i32 a y), sb (Gen.cmp_not_equal_u8_i32 a y), sb (Gen.cmp_less_u8_i32 a y), sb (Gen.cmp_greater_u8_i32 a y), sb (Gen.cmp_less_equal_u8_i32 a y), sb (Gen.cmp_greater_equal_u8_i32 a y)]))
-  | "i64" => some (g (Gen.cmp_equal_u8_i64_ub a y && Gen.cmp_not_equal_u8_i64_ub a y && Gen.cmp_less_u8_i64_ub a y && Gen.cmp_greater_u8_i64_ub a y && Gen.cmp_less_equal_u8_i64_ub a y && Gen.cmp_greater_equal_u8_i64_ub a y) (String.join [sb (Gen.cmp_equal_u8_i64 a y), sb (Gen.cmp_not_equal_u8_i64 a y), sb (Gen.cmp_less_u8_i64 a y), sb (Gen.cmp_greater_u8_i64 a y), sb (Gen.cmp_less_equal_u8_i64 a y), sb (Gen.cmp_greater_equal_u8_i64 a y)]))
+  | "u8" => some (g (Gen.cmp_equal_u8_u8_ub a y && Gen.cmp_not_equal_u8_u8_ub a y && Gen.cmp_less_u8_u8_ub a y && Gen.cmp_greater_u8_u8_ub a y && Gen.cmp_less_equal_u8_u8_ub a y && Gen.cmp_greater_equal_u8_u8_ub a y) (fun _ => String.join [sb (Gen.cmp_equal_u8_u8 a y), sb (Gen.cmp_not_equal_u8_u8 a y), sb (Gen.cmp_less_u8_u8 a y), sb (Gen.cmp_greater_u8_u8 a y), sb (Gen.cmp_less_equal_u8_u8 a y), sb (Gen.cmp_greater_equal_u8_u8 a y)]))
+  | "u16" => some (g (Gen.cmp_equal_u8_u16_ub a y && Gen.cmp_not_equal_u8_u16_ub a y && Gen.cmp_less_u8_u16_ub a y && Gen.cmp_greater_u8_u16_ub a y && Gen.cmp_less_equal_u8_u16_ub a y && Gen.cmp_greater_equal_u8_u16_ub a y) (fun _ => String.join [sb (Gen.cmp_equal_u8_u16 a y), sb (Gen.cmp_not_equal_u8_u16 a y), sb (Gen.cmp_less_u8_u16 a y), sb (Gen.cmp_greater_u8_u16 a y), sb (Gen.cmp_less_equal_u8_u16 a y), sb (Gen.cmp_greater_equal_u8_u16 a y)]))
+  | "u32" => some (g (Gen.cmp_equal_u8_u32_ub a y && Gen.cmp_not_equal_u8_u32_ub a y && Gen.cmp_less_u8_u32_ub a y && Gen.cmp_greater_u8_u32_ub a y && Gen.cmp_less_equal_u8_u32_ub a y && Gen.cmp_greater_equal_u8_u32_ub a y) (fun _ => String.join [sb (Gen.cmp_equal_u8_u32 a y), sb (Gen.cmp_not_equal_u8_u32 a y), sb (Gen.cmp_less_u8_u32 a y), sb (Gen.cmp_greater_u8_u32 a y), sb (Gen.cmp_less_equal_u8_u32 a y), sb (Gen.cmp_greater_equal_u8_u32 a y)]))
+  | "u64" => some (g (Gen.cmp_equal_u8_u64_ub a y && Gen.cmp_not_equal_u8_u64_ub a y && Gen.cmp_less_u8_u64_ub a y && Gen.cmp_greater_u8_u64_ub a y && Gen.cmp_less_equal_u8_u64_ub a y && Gen.cmp_greater_equal_u8_u64_ub a y) (fun _ => String.join [sb (Gen.cmp_equal_u8_u64 a y), sb (Gen.cmp_not_equal_u8_u64 a y), sb (Gen.cmp_less_u8_u64 a y), sb (Gen.cmp_greater_u8_u64 a y), sb (Gen.cmp_less_equal_u8_u64 a y), sb (Gen.cmp_greater_equal_u8_u64 a y)]))
+  | "i8" => some (g (Gen.cmp_equal_u8_i8_ub a y && Gen.cmp_not_equal_u8_i8_ub a y && Gen.cmp_less_u8_i8_ub a y && Gen.cmp_greater_u8_i8_ub a y && Gen.cmp_less_equal_u8_i8_ub a y && Gen.cmp_greater_equal_u8_i8_ub a y) (fun _ => String.join [sb (Gen.cmp_equal_u8_i8 a y), sb (Gen.cmp_not_equal_u8_i8 a y), sb (Gen.cmp_less_u8_i8 a y), sb (Gen.cmp_greater_u8_i8 a y), sb (Gen.cmp_less_equal_u8_i8 a y), sb (Gen.cmp_greater_equal_u8_i8 a y)]))
+  | "i16" => some (g (Gen.cmp_equal_u8_i16_ub a y && Gen.cmp_not_equal_u8_i16_ub a y && Gen.cmp_less_u8_i16_ub a y && Gen.cmp_greater_u8_i16_ub a y && Gen.cmp_less_equal_u8_i16_ub a y && Gen.cmp_greater_equal_u8_i16_ub a y) (fun _ => String.join [sb (Gen.cmp_equal_u8_i16 a y), sb (Gen.cmp_not_equal_u8_i16 a y), sb (Gen.cmp_less_u8_i16 a y), sb (Gen.cmp_greater_u8_i16 a y), sb (Gen.cmp_less_equal_u8_i16 a y), sb (Gen.cmp_greater_equal_u8_i16 a y)]))
+  | "i32" => some (g (Gen.cmp_equal_u8_i32_ub a y && Gen.cmp_not_equal_u8_i32_ub a y && Gen.cmp_less_u8_i32_ub a y && Gen.cmp_greater_u8_i32_ub a y && Gen.cmp_less_equal_u8_i32_ub a y && Gen.cmp_greater_equal_u8_i32_ub a y) (fun _ => String.join [sb (Gen.cmp_equal_u8_i32 a y), sb (Gen.cmp_not_equal_u8_i32 a y), sb (Gen.cmp_less_u8_i32 a y), sb (Gen.cmp_greater_u8_i32 a y), sb (Gen.cmp_less_equal_u8_i32 a y), sb (Gen.cmp_greater_equal_u8_i32 a y)]))
+  | "i64" => some (g (Gen.cmp_equal_u8_i64_ub a y && Gen.cmp_not_equal_u8_i64_ub a y && Gen.cmp_less_u8_i64_ub a y && Gen.cmp_greater_u8_i64_ub a y && Gen.cmp_less_equal_u8_i64_ub a y && Gen.cmp_greater_equal_u8_i64_ub a y) (fun _ => String.join [sb (Gen.cmp_equal_u8_i64 a y), sb (Gen.cmp_not_equal_u8_i64 a y), sb (Gen.cmp_less_u8_i64 a y), sb (Gen.cmp_greater_u8_i64 a y), sb (Gen.cmp_less_equal_u8_i64 a y), sb (Gen.cmp_greater_equal_u8_i64 a y)]))
   | _ => none
 
 def p_saturate_cast_u8 (ty : String) (a : Int) : Option String :=
   match ty with
-  | "u8" => some (g (Gen.saturate_cast_u8_u8_ub a) (toString (Gen.saturate_cast_u8_u8 a)))
-  | "u16" => some (g (Gen.saturate_cast_u8_u16_ub a) (toString (Gen.saturate_cast_u8_u16 a)))
-  | "u32" => some (g (Gen.saturate_cast_u8_u32_ub a) (toString (Gen.saturate_cast_u8_u32 a)))
-  | "u64" => some (g (Gen.saturate_cast_u8_u64_ub a) (toString (Gen.saturate_cast_u8_u64 a)))
-  | "i8" => some (g (Gen.saturate_cast_u8_i8_ub a) (toString (Gen.saturate_cast_u8_i8 a)))
-  | "i16" => some (g (Gen.saturate_cast_u8_i16_ub a) (toString (Gen.saturate_cast_u8_i16 a)))
-  | "i32" => some (g (Gen.saturate_cast_u8_i32_ub a) (toString (Gen.saturate_cast_u8_i32 a)))
-  | "i64" => some (g (Gen.saturate_cast_u8_i64_ub a) (toString (Gen.saturate_cast_u8_i64 a)))
+  | "u8" => some (g (Gen.saturate_cast_u8_u8_ub a) (fun _ => toString (Gen.saturate_cast_u8_u8 a)))
+  | "u16" => some (g (Gen.saturate_cast_u8_u16_ub a) (fun _ => toString (Gen.saturate_cast_u8_u16 a)))
+  | "u32" => some (g (Gen.saturate_cast_u8_u32_ub a) (fun _ => toString (Gen.saturate_cast_u8_u32 a)))
+  | "u64" => some (g (Gen.saturate_cast_u8_u64_ub a) (fun _ => toString (Gen.saturate_cast_u8_u64 a)))
+  | "i8" => some (g (Gen.saturate_cast_u8_i8_ub a) (fun _ => toString (Gen.saturate_cast_u8_i8 a)))
+  | "i16" => some (g (Gen.saturate_cast_u8_i16_ub a) (fun _ => toString (Gen.saturate_cast_u8_i16 a)))
+  | "i32" => some (g (Gen.saturate_cast_u8_i32_ub a) (fun _ => toString (Gen.saturate_cast_u8_i32 a)))
+  | "i64" => some (g (Gen.saturate_cast_u8_i64_ub a) (fun _ => toString (Gen.saturate_cast_u8_i64 a)))
   | _ => none
 
 def p_in_range_u8 (ty : String) (a : Int) : Option String :=
   match ty with
-  | "u8" => some (g (Gen.in_range_u8_u8_ub a) (sb (Gen.in_range_u8_u8 a)))
-  | "u16" => some (g (Gen.in_range_u8_u16_ub a) (sb (Gen.in_range_u8_u16 a)))
-  | "u32" => some (g (Gen.in_range_u8_u32_ub a) (sb (Gen.in_range_u8_u32 a)))
-  | "u64" => some (g (Gen.in_range_u8_u64_ub a) (sb (Gen.in_range_u8_u64 a)))
-  | "i8" => some (g (Gen.in_range_u8_i8_ub a) (sb (Gen.in_range_u8_i8 a)))
-  | "i16" => some (g (Gen.in_range_u8_i16_ub a) (sb (Gen.in_range_u8_i16 a)))
-  | "i32" => some (g (Gen.in_range_u8_i32_ub a) (sb (Gen.in_range_u8_i32 a)))
-  | "i64" => some (g (Gen.in_range_u8_i64_ub a) (sb (Gen.in_range_u8_i64 a)))
+  | "u8" => some (g (Gen.in_range_u8_u8_ub a) (fun _ => sb (Gen.in_range_u8_u8 a)))
+  | "u16" => some (g (Gen.in_range_u8_u16_ub a) (fun _ => sb (Gen.in_range_u8_u16 a)))
+  | "u32" => some (g (Gen.in_range_u8_u32_ub a) (fun _ => sb (Gen.in_range_u8_u32 a)))
+  | "u64" => some (g (Gen.in_range_u8_u64_ub a) (fun _ => sb (Gen.in_range_u8_u64 a)))
+  | "i8" => some (g (Gen.in_range_u8_i8_ub a) (fun _ => sb (Gen.in_range_u8_i8 a)))
+  | "i16" => some (g (Gen.in_range_u8_i16_ub a) (fun _ => sb (Gen.in_range_u8_i16 a)))
+  | "i32" => some (g (Gen.in_range_u8_i32_ub a) (fun _ => sb (Gen.in_range_u8_i32 a)))
+  | "i64" => some (g (Gen.in_range_u8_i64_ub a) (fun _ => sb (Gen.in_range_u8_i64 a)))
   | _ => none
 
 def p_cmp_u16 (ty : String) (a y : Int) : Option String :=
   match ty with
-  | "u8" => some (g (Gen.cmp_equal_u16_u8_ub a y && Gen.cmp_not_equal_u16_u8_ub a y && Gen.cmp_less_u16_u8_ub a y && Gen.cmp_greater_u16_u8_ub a y && Gen.cmp_less_equal_u16_u8_ub a y && Gen.cmp_greater_equal_u16_u8_ub a y) (String.join [sb (Gen.cmp_equal_u16_u8 a y), sb (Gen.cmp_not_equal_u16_u8 a y), sb (Gen.cmp_less_u16_u8 a y), sb (Gen.cmp_greater_u16_u8 a y), sb (Gen.cmp_less_equal_u16_u8 a y), sb (Gen.cmp_greater_equal_u16_u8 a y)]))
-  | "u16" => some (g (Gen.cmp_equal_u16_u16_ub a y && Gen.cmp_not_equal_u16_u16_ub a y && Gen.cmp_less_u16_u16_ub a y && Gen.cmp_greater_u16_u16_ub a y && Gen.cmp_less_equal_u16_u16_ub a y && Gen.cmp_greater_equal_u16_u16_ub a y) (String.join [sb (Gen.cmp_equal_u16_u16 a y), sb (Gen.cmp_not_equal_u16_u16 a y), sb (Gen.cmp_less_u16_u16 a y), sb (Gen.cmp_greater_u16_u16 a y), sb (Gen.cmp_less_equal_u16_u16 a y), sb (Gen.cmp_greater_equal_u16_u16 a y)]))
-  | "u32" => some (g (Gen.cmp_equal_u16_u32_ub a y && Gen.cmp_not_equal_u16_u32_ub a y && Gen.cmp_less_u16_u32_ub a y && Gen.cmp_greater_u16_u32_ub a y && Gen.cmp_less_equal_u16_u32_ub a y && Gen.cmp_greater_equal_u16_u32_ub a y) (String.join [sb (Gen.cmp_equal_u16_u32 a y), sb (Gen.cmp_not_equal_u16_u32 a y), sb (Gen.cmp_less_u16_u32 a y), sb (Gen.cmp_greater_u16_u32 a y), sb (Gen.cmp_less_equal_u16_u32 a y), sb (Gen.cmp_greater_equal_u16_u32 a y)]))
-  | "u64" => some (g (Gen.cmp_equal_u16_u64_ub a y && Gen.cmp_not_equal_u16_u64_ub a y && Gen.cmp_less_u16_u64_ub a y && Gen.cmp_greater_u16_u64_ub a y && Gen.cmp_less_equal_u16_u64_ub a y && Gen.cmp_greater_equal_u16_u64_ub a y) (String.join [sb (Gen.cmp_equal_u16_u64 a y), sb (Gen.cmp_not_equal_u16_u64 a y), sb (Gen.cmp_less_u16_u64 a y), sb (Gen.cmp_greater_u16_u64 a y), sb (Gen.cmp_less_equal_u16_u64 a y), sb (Gen.cmp_greater_equal_u16_u64 a y)]))
-  | "i8" => some (g (Gen.cmp_equal_u16_i8_ub a y && Gen.cmp_not_equal_u16_i8_ub a y && Gen.cmp_less_u16_i8_ub a y && Gen.cmp_greater_u16_i8_ub a y && Gen.cmp_less_equal_u16_i8_ub a y && Gen.cmp_greater_equal_u16_i8_ub a y) (String.join [sb (Gen.cmp_equal_u16_i8 a y), sb (Gen.cmp_not_equal_u16_i8 a y), sb (Gen.cmp_less_u16_i8 a y), sb (Gen.cmp_greater_u16_i8 a y), sb (Gen.cmp_less_equal_u16_i8 a y), sb (Gen.cmp_greater_equal_u16_i8 a y)]))
-  | "i16" => some (g (Gen.cmp_equal_u16_i16_ub a y && Gen.cmp_not_equal_u16_i16_ub a y && Gen.cmp_less_u16_i16_ub a y && Gen.cmp_greater_u16_i16_ub a y && Gen.cmp_less_equal_u16_i16_ub a y && Gen.cmp_greater_equal_u16_i16_ub a y) (String.join [sb (Gen.cmp_equal_u16_i16 a y), sb (Gen.cmp_not_equal_u16_i16 a y), sb (Gen.cmp_less_u16_i16 a y), sb (Gen.cmp_greater_u16_i16 a y), sb (Gen.cmp_less_equal_u16_i16 a y), sb (Gen.cmp_greater_equal_u16_i16 a y)]))
-  | "i32" => some (g (Gen.cmp_equal_u16_i32_ub a y && Gen.cmp_not_equal_u16_i32_ub a y && Gen.cmp_less_u16_i32_ub a y && Gen.cmp_greater_u16_i32_ub a y && Gen.cmp_less_equal_u16_i32_ub a y && Gen.cmp_greater_equal_u16_i32_ub a y) (String.join [sb (Gen.cmp_equal_u16_i32 a y), sb (Gen.cmp_not_equal_u16_i32 a y), sb (Gen.cmp_less_u16_i32 a y), sb (Gen.cmp_greater_u16_i32 a y), sb (Gen.cmp_less_equal_u16_i32 a y), sb (Gen.cmp_greater_equal_u16_i32 a y)]))
-  | "i64" => some (g (Gen.cmp_equal_u16_i64_ub a y && Gen.cmp_not_equal_u16_i64_ub a y && Gen.cmp_less_u16_i64_ub a y && Gen.cmp_greater_u16_i64_ub a y && Gen.cmp_less_equal_u16_i64_ub a y && Gen.cmp_greater_equal_u16_i64_ub a y) (String.join [sb (Gen.cmp_equal_u16_i64 a y), sb (Gen.cmp_not_equal_u16_i64 a y), sb (Gen.cmp_less_u16_i64 a y), sb (Gen.cmp_greater_u16_i64 a y), sb (Gen.cmp_less_equal_u16_i64 a y), sb (Gen.cmp_greater_equal_u16_i64 a y)]))
+  | "u8" => some (g (Gen.cmp_equal_u16_u8_ub a y && Gen.cmp_not_equal_u16_u8_ub a y && Gen.cmp_less_u16_u8_ub a y && Gen.cmp_greater_u16_u8_ub a y && Gen.cmp_less_equal_u16_u8_ub a y && Gen.cmp_greater_equal_u16_u8_ub a y) (fun _ => String.join [sb (Gen.cmp_equal_u16_u8 a y), sb (Gen.cmp_not_equal_u16_u8 a y), sb (Gen.cmp_less_u16_u8 a y), sb (Gen.cmp_greater_u16_u8 a y), sb (Gen.cmp_less_equal_u16_u8 a y), sb (Gen.cmp_greater_equal_u16_u8 a y)]))
+  | "u16" => some (g (Gen.cmp_equal_u16_u16_ub a y && Gen.cmp_not_equal_u16_u16_ub a y && Gen.cmp_less_u16_u16_ub a y && Gen.cmp_greater_u16_u16_ub a y && Gen.cmp_less_equal_u16_u16_ub a y && Gen.cmp_greater_equal_u16_u16_ub a y) (fun _ => String.join [sb (Gen.cmp_equal_u16_u16 a y), sb (Gen.cmp_not_equal_u16_u16 a y), sb (Gen.cmp_less_u16_u16 a y), sb (Gen.cmp_greater_u16_u16 a y), sb (Gen.cmp_less_equal_u16_u16 a y), sb (Gen.cmp_greater_equal_u16_u16 a y)]))
+  | "u32" => some (g (Gen.cmp_equal_u16_u32_ub a y && Gen.cmp_not_equal_u16_u32_ub a y && Gen.cmp_less_u16_u32_ub a y && Gen.cmp_greater_u16_u32_ub a y && Gen.cmp_less_equal_u16_u32_ub a y && Gen.cmp_greater_equal_u16_u32_ub a y) (fun _ => String.join [sb (Gen.cmp_equal_u16_u32 a y), sb (Gen.cmp_not_equal_u16_u32 a y), sb (Gen.cmp_less_u16_u32 a y), sb (Gen.cmp_greater_u16_u32 a y), sb (Gen.cmp_less_equal_u16_u32 a y), sb (Gen.cmp_greater_equal_u16_u32 a y)]))
+  | "u64" => some (g (Gen.cmp_equal_u16_u64_ub a y && Gen.cmp_not_equal_u16_u64_ub a y && Gen.cmp_less_u16_u64_ub a y && Gen.cmp_greater_u16_u64_ub a y && Gen.cmp_less_equal_u16_u64_ub a y && Gen.cmp_greater_equal_u16_u64_ub a y) (fun _ => String.join [sb (Gen.cmp_equal_u16_u64 a y), sb (Gen.cmp_not_equal_u16_u64 a y), sb (Gen.cmp_less_u16_u64 a y), sb (Gen.cmp_greater_u16_u64 a y), sb (Gen.cmp_less_equal_u16_u64 a y), sb (Gen.cmp_greater_equal_u16_u64 a y)]))
+  | "i8" => some (g (Gen.cmp_equal_u16_i8_ub a y && Gen.cmp_not_equal_u16_i8_ub a y && Gen.cmp_less_u16_i8_ub a y && Gen.cmp_greater_u16_i8_ub a y && Gen.cmp_less_equal_u16_i8_ub a y && Gen.cmp_greater_equal_u16_i8_ub a y) (fun _ => String.join [sb (Gen.cmp_equal_u16_i8 a y), sb (Gen.cmp_not_equal_u16_i8 a y), sb (Gen.cmp_less_u16_i8 a y), sb (Gen.cmp_greater_u16_i8 a y), sb (Gen.cmp_less_equal_u16_i8 a y), sb (Gen.cmp_greater_equal_u16_i8 a y)]))
+  | "i16" => some (g (Gen.cmp_equal_u16_i16_ub a y && Gen.cmp_not_equal_u16_i16_ub a y && Gen.cmp_less_u16_i16_ub a y && Gen.cmp_greater_u16_i16_ub a y && Gen.cmp_less_equal_u16_i16_ub a y && Gen.cmp_greater_equal_u16_i16_ub a y) (fun _ => String.join [sb (Gen.cmp_equal_u16_i16 a y), sb (Gen.cmp_not_equal_u16_i16 a y), sb (Gen.cmp_less_u16_i16 a y), sb (Gen.cmp_greater_u16_i16 a y), sb (Gen.cmp_less_equal_u16_i16 a y), sb (Gen.cmp_greater_equal_u16_i16 a y)]))
+  | "i32" => some (g (Gen.cmp_equal_u16_i32_ub a y && Gen.cmp_not_equal_u16_i32_ub a y && Gen.cmp_less_u16_i32_ub a y && Gen.cmp_greater_u16_i32_ub a y && Gen.cmp_less_equal_u16_i32_ub a y && Gen.cmp_greater_equal_u16_i32_ub a y) (fun _ => String.join [sb (Gen.cmp_equal_u16_i32 a y), sb (Gen.cmp_not_equal_u16_i32 a y), sb (Gen.cmp_less_u16_i32 a y), sb (Gen.cmp_greater_u16_i32 a y), sb (Gen.cmp_less_equal_u16_i32 a y), sb (Gen.cmp_greater_equal_u16_i32 a y)]))
+  | "i64" => some (g (Gen.cmp_equal_u16_i64_ub a y && Gen.cmp_not_equal_u16_i64_ub a y && Gen.cmp_less_u16_i64_ub a y && Gen.cmp_greater_u16_i64_ub a y && Gen.cmp_less_equal_u16_i64_ub a y && Gen.cmp_greater_equal_u16_i64_ub a y) (fun _ => String.join [sb (Gen.cmp_equal_u16_i64 a y), sb (Gen.cmp_not_equal_u16_i64 a y), sb (Gen.cmp_less_u16_i64 a y), sb (Gen.cmp_greater_u16_i64 a y), sb (Gen.cmp_less_equal_u16_i64 a y), sb (Gen.cmp_greater_equal_u16_i64 a y)]))
   | _ => none
 
 def p_saturate_cast_u16 (ty : String) (a : Int) : Option String :=
   match ty with
-  | "u8" => some (g (Gen.saturate_cast_u16_u8_ub a) (toString (Gen.saturate_cast_u16_u8 a)))
-  | "u16" => some (g (Gen.saturate_cast_u16_u16_ub a) (toString (Gen.saturate_cast_u16_u16 a)))
-  | "u32" => some (g (Gen.saturate_cast_u16_u32_ub a) (toString (Gen.saturate_cast_u16_u32 a)))
-  | "u64" => some (g (Gen.saturate_cast_u16_u64_ub a) (toString (Gen.saturate_cast_u16_u64 a)))
-  | "i8" => some (g (Gen.saturate_cast_u16_i8_ub a) (toString (Gen.saturate_cast_u16_i8 a)))
-  | "i16" => some (g (Gen.saturate_cast_u16_i16_ub a) (toString (Gen.saturate_cast_u16_i16 a)))
-  | "i32" => some (g (Gen.saturate_cast_u16_i32_ub a) (toString (Gen.saturate_cast_u16_i32 a)))
-  | "i64" => some (g (Gen.saturate_cast_u16_i64_ub a) (toString (Gen.saturate_cast_u16_i64 a)))
+  | "u8" => some (g (Gen.saturate_cast_u16_u8_ub a) (fun _ => toString (Gen.saturate_cast_u16_u8 a)))
+  | "u16" => some (g (Gen.saturate_cast_u16_u16_ub a) (fun _ => toString (Gen.saturate_cast_u16_u16 a)))
+  | "u32" => some (g (Gen.saturate_cast_u16_u32_ub a) (fun _ => toString (Gen.saturate_cast_u16_u32 a)))
+  | "u64" => some (g (Gen.saturate_cast_u16_u64_ub a) (fun _ => toString (Gen.saturate_cast_u16_u64 a)))
+  | "i8" => some (g (Gen.saturate_cast_u16_i8_ub a) (fun _ => toString (Gen.saturate_cast_u16_i8 a)))
+  | "i16" => some (g (Gen.saturate_cast_u16_i16_ub a) (fun _ => toString (Gen.saturate_cast_u16_i16 a)))
+  | "i32" => some (g (Gen.saturate_cast_u16_i32_ub a) (fun _ => toString (Gen.saturate_cast_u16_i32 a)))
+  | "i64" => some (g (Gen.saturate_cast_u16_i64_ub a) (fun _ => toString (Gen.saturate_cast_u16_i64 a)))
   | _ => none
 
 def p_in_range_u16 (ty : String) (a : Int) : Option String :=
   match ty with
-  | "u8" => some (g (Gen.in_range_u16_u8_ub a) (sb (Gen.in_range_u16_u8 a)))
-  | "u16" => some (g (Gen.in_range_u16_u16_ub a) (sb (Gen.in_range_u16_u16 a)))
-  | "u32" => some (g (Gen.in_range_u16_u32_ub a) (sb (Gen.in_range_u16_u32 a)))
-  | "u64" => some (g (Gen.in_range_u16_u64_ub a) (sb (Gen.in_range_u16_u64 a)))
-  | "i8" => some (g (Gen.in_range_u16_i8_ub a) (sb (Gen.in_range_u16_i8 a)))
-  | "i16" => some (g (Gen.in_range_u16_i16_ub a) (sb (Gen.in_range_u16_i16 a)))
-  | "i32" => some (g (Gen.in_range_u16_i32_ub a) (sb (Gen.in_range_u16_i32 a)))
-  | "i64" => some (g (Gen.in_range_u16_i64_ub a) (sb (Gen.in_range_u16_i64 a)))
+  | "u8" => some (g (Gen.in_range_u16_u8_ub a) (fun _ => sb (Gen.in_range_u16_u8 a)))
+  | "u16" => some (g (Gen.in_range_u16_u16_ub a) (fun _ => sb (Gen.in_range_u16_u16 a)))
+  | "u32" => some (g (Gen.in_range_u16_u32_ub a) (fun _ => sb (Gen.in_range_u16_u32 a)))
+  | "u64" => some (g (Gen.in_range_u16_u64_ub a) (fun _ => sb (Gen.in_range_u16_u64 a)))
+  | "i8" => some (g (Gen.in_range_u16_i8_ub a) (fun _ => sb (Gen.in_range_u16_i8 a)))
+  | "i16" => some (g (Gen.in_range_u16_i16_ub a) (fun _ => sb (Gen.in_range_u16_i16 a)))
+  | "i32" => some (g (Gen.in_range_u16_i32_ub a) (fun _ => sb (Gen.in_range_u16_i32 a)))
+  | "i64" => some (g (Gen.in_range_u16_i64_ub a) (fun _ => sb (Gen.in_range_u16_i64 a)))
   | _ => none
 
 def p_cmp_u32 (ty : String) (a y : Int) : Option String :=
   match ty with
-  | "u8" => some (g (Gen.cmp_equal_u32_u8_ub a y && Gen.cmp_not_equal_u32_u8_ub a y && Gen.cmp_less_u32_u8_ub a y && Gen.cmp_greater_u32_u8_ub a y && Gen.cmp_less_equal_u32_u8_ub a y && Gen.cmp_greater_equal_u32_u8_ub a y) (String.join [sb (Gen.cmp_equal_u32_u8 a y), sb (Gen.cmp_not_equal_u32_u8 a y), sb (Gen.cmp_less_u32_u8 a y), sb (Gen.cmp_greater_u32_u8 a y), sb (Gen.cmp_less_equal_u32_u8 a y), sb (Gen.cmp_greater_equal_u32_u8 a y)]))
-  | "u16" => some (g (Gen.cmp_equal_u32_u16_ub a y && Gen.cmp_not_equal_u32_u16_ub a y && Gen.cmp_less_u32_u16_ub a y && Gen.cmp_greater_u32_u16_ub a y && Gen.cmp_less_equal_u32_u16_ub a y && Gen.cmp_greater_equal_u32_u16_ub a y) (String.join [sb (Gen.cmp_equal_u32_u16 a y), sb (Gen.cmp_not_equal_u32_u16 a y), sb (Gen.cmp_less_u32_u16 a y), sb (Gen.cmp_greater_u32_u16 a y), sb (Gen.cmp_less_equal_u32_u16 a y), sb (Gen.cmp_greater_equal_u32_u16 a y)]))
-  | "u32" => some (g (Gen.cmp_equal_u32_u32_ub a y && Gen.cmp_not_equal_u32_u32_ub a y && Gen.cmp_less_u32_u32_ub a y && Gen.cmp_greater_u32_u32_ub a y && Gen.cmp_less_equal_u32_u32_ub a y && Gen.cmp_greater_equal_u32_u32_ub a y) (String.join [sb (Gen.cmp_equal_u32_u32 a y), sb (Gen.cmp_not_equal_u32_u32 a y), sb (Gen.cmp_less_u32_u32 a y), sb (Gen.cmp_greater_u32_u32 a y), sb (Gen.cmp_less_equal_u32_u32 a y), sb (Gen.cmp_greater_equal_u32_u32 a y)]))
-  | "u64" => some (g (Gen.cmp_equal_u32_u64_ub a y && Gen.cmp_not_equal_u32_u64_ub a y && Gen.cmp_less_u32_u64_ub a y && Gen.cmp_greater_u32_u64_ub a y && Gen.cmp_less_equal_u32_u64_ub a y && Gen.cmp_greater_equal_u32_u64_ub a y) (String.join [sb (Gen.cmp_equal_u32_u64 a y), sb (Gen.cmp_not_equal_u32_u64 a y), sb (Gen.cmp_less_u32_u64 a y), sb (Gen.cmp_greater_u32_u64 a y), sb (Gen.cmp_less_equal_u32_u64 a y), sb (Gen.cmp_greater_equal_u32_u64 a y)]))
-  | "i8" => some (g (Gen.cmp_equal_u32_i8_ub a y && Gen.cmp_not_equal_u32_i8_ub a y && Gen.cmp_less_u32_i8_ub a y && Gen.cmp_greater_u32_i8_ub a y && Gen.cmp_less_equal_u32_i8_ub a y && Gen.cmp_greater_equal_u32_i8_ub a y) (String.join [sb (Gen.cmp_equal_u32_i8 a y), sb (Gen.cmp_not_equal_u32_i8 a y), sb (Gen.cmp_less_u32_i8 a y), sb (Gen.cmp_greater_u32_i8 a y), sb (Gen.cmp_less_equal_u32_i8 a y), sb (Gen.cmp_greater_equal_u32_i8 a y)]))
-  | "i16" => some (g (Gen.cmp_equal_u32_i16_ub a y && Gen.cmp_not_equal_u32_i16_ub a y && Gen.cmp_less_u32_i16_ub a y && Gen.cmp_greater_u32_i16_ub a y && Gen.cmp_less_equal_u32_i16_ub a y && Gen.cmp_greater_equal_u32_i16_ub a y) (String.join [sb (Gen.cmp_equal_u32_i16 a y), sb (Gen.cmp_not_equal_u32_i16 a y), sb (Gen.cmp_less_u32_i16 a y), sb (Gen.cmp_greater_u32_i16 a y), sb (Gen.cmp_less_equal_u32_i16 a y), sb (Gen.cmp_greater_equal_u32_i16 a y)]))
-  | "i32" => some (g (Gen.cmp_equal_u32_i32_ub a y && Gen.cmp_not_equal_u32_i32_ub a y && Gen.cmp_less_u32_i32_ub a y && Gen.cmp_greater_u32_i32_ub a y && Gen.cmp_less_equal_u32_i32_ub a y && Gen.cmp_greater_equal_u32_i32_ub a y) (String.join [sb (Gen.cmp_equal_u32_i32 a y), sb (Gen.cmp_not_equal_u32_i32 a y), sb (Gen.cmp_less_u32_i32 a y), sb (Gen.cmp_greater_u32_i32 a y), sb (Gen.cmp_less_equal_u32_i32 a y), sb (Gen.cmp_greater_equal_u32_i32 a y)]))
-  | "i64" => some (g (Gen.cmp_equal_u32_i64_ub a y && Gen.cmp_not_equal_u32_i64_ub a y && Gen.cmp_less_u32_i64_ub a y && Gen.cmp_greater_u32_i64_ub a y && Gen.cmp_less_equal_u32_i64_ub a y && Gen.cmp_greater_equal_u32_i64_ub a y) (String.join [sb (Gen.cmp_equal_u32_i64 a y), sb (Gen.cmp_not_equal_u32_i64 a y), sb (Gen.cmp_less_u32_i64 a y), sb (Gen.cmp_greater_u32_i64 a y), sb (Gen.cmp_less_equal_u32_i64 a y), sb (Gen.cmp_greater_equal_u32_i64 a y)]))
+  | "u8" => some (g (Gen.cmp_equal_u32_u8_ub a y && Gen.cmp_not_equal_u32_u8_ub a y && Gen.cmp_less_u32_u8_ub a y && Gen.cmp_greater_u32_u8_ub a y && Gen.cmp_less_equal_u32_u8_ub a y && Gen.cmp_greater_equal_u32_u8_ub a y) (fun _ => String.join [sb (Gen.cmp_equal_u32_u8 a y), sb (Gen.cmp_not_equal_u32_u8 a y), sb (Gen.cmp_less_u32_u8 a y), sb (Gen.cmp_greater_u32_u8 a y), sb (Gen.cmp_less_equal_u32_u8 a y), sb (Gen.cmp_greater_equal_u32_u8 a y)]))
+  | "u16" => some (g (Gen.cmp_equal_u32_u16_ub a y && Gen.cmp_not_equal_u32_u16_ub a y && Gen.cmp_less_u32_u16_ub a y && Gen.cmp_greater_u32_u16_ub a y && Gen.cmp_less_equal_u32_u16_ub a y && Gen.cmp_greater_equal_u32_u16_ub a y) (fun _ => String.join [sb (Gen.cmp_equal_u32_u16 a y), sb (Gen.cmp_not_equal_u32_u16 a y), sb (Gen.cmp_less_u32_u16 a y), sb (Gen.cmp_greater_u32_u16 a y), sb (Gen.cmp_less_equal_u32_u16 a y), sb (Gen.cmp_greater_equal_u32_u16 a y)]))
+  | "u32" => some (g (Gen.cmp_equal_u32_u32_ub a y && Gen.cmp_not_equal_u32_u32_ub a y && Gen.cmp_less_u32_u32_ub a y && Gen.cmp_greater_u32_u32_ub a y && Gen.cmp_less_equal_u32_u32_ub a y && Gen.cmp_greater_equal_u32_u32_ub a y) (fun _ => String.join [sb (Gen.cmp_equal_u32_u32 a y), sb (Gen.cmp_not_equal_u32_u32 a y), sb (Gen.cmp_less_u32_u32 a y), sb (Gen.cmp_greater_u32_u32 a y), sb (Gen.cmp_less_equal_u32_u32 a y), sb (Gen.cmp_greater_equal_u32_u32 a y)]))
+  | "u64" => some (g (Gen.cmp_equal_u32_u64_ub a y && Gen.cmp_not_equal_u32_u64_ub a y && Gen.cmp_less_u32_u64_ub a y && Gen.cmp_greater_u32_u64_ub a y && Gen.cmp_less_equal_u32_u64_ub a y && Gen.cmp_greater_equal_u32_u64_ub a y) (fun _ => String.join [sb (Gen.cmp_equal_u32_u64 a y), sb (Gen.cmp_not_equal_u32_u64 a y), sb (Gen.cmp_less_u32_u64 a y), sb (Gen.cmp_greater_u32_u64 a y), sb (Gen.cmp_less_equal_u32_u64 a y), sb (Gen.cmp_greater_equal_u32_u64 a y)]))
+  | "i8" => some (g (Gen.cmp_equal_u32_i8_ub a y && Gen.cmp_not_equal_u32_i8_ub a y && Gen.cmp_less_u32_i8_ub a y && Gen.cmp_greater_u32_i8_ub a y && Gen.cmp_less_equal_u32_i8_ub a y && Gen.cmp_greater_equal_u32_i8_ub a y) (fun _ => String.join [sb (Gen.cmp_equal_u32_i8 a y), sb (Gen.cmp_not_equal_u32_i8 a y), sb (Gen.cmp_less_u32_i8 a y), sb (Gen.cmp_greater_u32_i8 a y), sb (Gen.cmp_less_equal_u32_i8 a y), sb (Gen.cmp_greater_equal_u32_i8 a y)]))
+  | "i16" => some (g (Gen.cmp_equal_u32_i16_ub a y && Gen.cmp_not_equal_u32_i16_ub a y && Gen.cmp_less_u32_i16_ub a y && Gen.cmp_greater_u32_i16_ub a y && Gen.cmp_less_equal_u32_i16_ub a y && Gen.cmp_greater_equal_u32_i16_ub a y) (fun _ => String.join [sb (Gen.cmp_equal_u32_i16 a y), sb (Gen.cmp_not_equal_u32_i16 a y), sb (Gen.cmp_less_u32_i16 a y), sb (Gen.cmp_greater_u32_i16 a y), sb (Gen.cmp_less_equal_u32_i16 a y), sb (Gen.cmp_greater_equal_u32_i16 a y)]))
+  | "i32" => some (g (Gen.cmp_equal_u32_i32_ub a y && Gen.cmp_not_equal_u32_i32_ub a y && Gen.cmp_less_u32_i32_ub a y && Gen.cmp_greater_u32_i32_ub a y && Gen.cmp_less_equal_u32_i32_ub a y && Gen.cmp_greater_equal_u32_i32_ub a y) (fun _ => String.join [sb (Gen.cmp_equal_u32_i32 a y), sb (Gen.cmp_not_equal_u32_i32 a y), sb (Gen.cmp_less_u32_i32 a y), sb (Gen.cmp_greater_u32_i32 a y), sb (Gen.cmp_less_equal_u32_i32 a y), sb (Gen.cmp_greater_equal_u32_i32 a y)]))
+  | "i64" => some (g (Gen.cmp_equal_u32_i64_ub a y && Gen.cmp_not_equal_u32_i64_ub a y && Gen.cmp_less_u32_i64_ub a y && Gen.cmp_greater_u32_i64_ub a y && Gen.cmp_less_equal_u32_i64_ub a y && Gen.cmp_greater_equal_u32_i64_ub a y) (fun _ => String.join [sb (Gen.cmp_equal_u32_i64 a y), sb (Gen.cmp_not_equal_u32_i64 a y), sb (Gen.cmp_less_u32_i64 a y), sb (Gen.cmp_greater_u32_i64 a y), sb (Gen.cmp_less_equal_u32_i64 a y), sb (Gen.cmp_greater_equal_u32_i64 a y)]))
   | _ => none
 
 def p_saturate_cast_u32 (ty : String) (a : Int) : Option String :=
   match ty with
-  | "u8" => some (g (Gen.saturate_cast_u32_u8_ub a) (toString (Gen.saturate_cast_u32_u8 a)))
-  | "u16" => some (g (Gen.saturate_cast_u32_u16_ub a) (toString (Gen.saturate_cast_u32_u16 a)))
-  | "u32" => some (g (Gen.saturate_cast_u32_u32_ub a) (toString (Gen.saturate_cast_u32_u32 a)))
-  | "u64" => some (g (Gen.saturate_cast_u32_u64_ub a) (toString (Gen.saturate_cast_u32_u64 a)))
-  | "i8" => some (g (Gen.saturate_cast_u32_i8_ub a) (toString (Gen.saturate_cast_u32_i8 a)))
-  | "i16" => some (g (Gen.saturate_cast_u32_i16_ub a) (toString (Gen.saturate_cast_u32_i16 a)))
-  | "i32" => some (g (Gen.saturate_cast_u32_i32_ub a) (toString (Gen.saturate_cast_u32_i32 a)))
-  | "i64" => some (g (Gen.saturate_cast_u32_i64_ub a) (toString (Gen.saturate_cast_u32_i64 a)))
+  | "u8" => some (g (Gen.saturate_cast_u32_u8_ub a) (fun _ => toString (Gen.saturate_cast_u32_u8 a)))
+  | "u16" => some (g (Gen.saturate_cast_u32_u16_ub a) (fun _ => toString (Gen.saturate_cast_u32_u16 a)))
+  | "u32" => some (g (Gen.saturate_cast_u32_u32_ub a) (fun _ => toString (Gen.saturate_cast_u32_u32 a)))
+  | "u64" => some (g (Gen.saturate_cast_u32_u64_ub a) (fun _ => toString (Gen.saturate_cast_u32_u64 a)))
+  | "i8" => some (g (Gen.saturate_cast_u32_i8_ub a) (fun _ => toString (Gen.saturate_cast_u32_i8 a)))
+  | "i16" => some (g (Gen.saturate_cast_u32_i16_ub a) (fun _ => toString (Gen.saturate_cast_u32_i16 a)))
+  | "i32" => some (g (Gen.saturate_cast_u32_i32_ub a) (fun _ => toString (Gen.saturate_cast_u32_i32 a)))
+  | "i64" => some (g (Gen.saturate_cast_u32_i64_ub a) (fun _ => toString (Gen.saturate_cast_u32_i64 a)))
   | _ => none
 
 def p_in_range_u32 (ty : String) (a : Int) : Option String :=
   match ty with
-  | "u8" => some (g (Gen.in_range_u32_u8_ub a) (sb (Gen.in_range_u32_u8 a)))
-  | "u16" => some (g (Gen.in_range_u32_u16_ub a) (sb (Gen.in_range_u32_u16 a)))
-  | "u32" => some (g (Gen.in_range_u32_u32_ub a) (sb (Gen.in_range_u32_u32 a)))
-  | "u64" => some (g (Gen.in_range_u32_u64_ub a) (sb (Gen.in_range_u32_u64 a)))
-  | "i8" => some (g (Gen.in_range_u32_i8_ub a) (sb (Gen.in_range_u32_i8 a)))
-  | "i16" => some (g (Gen.in_range_u32_i16_ub a) (sb (Gen.in_range_u32_i16 a)))
-  | "i32" => some (g (Gen.in_range_u32_i32_ub a) (sb (Gen.in_range_u32_i32 a)))
-  | "i64" => some (g (Gen.in_range_u32_i64_ub a) (sb (Gen.in_range_u32_i64 a)))
+  | "u8" => some (g (Gen.in_range_u32_u8_ub a) (fun _ => sb (Gen.in_range_u32_u8 a)))
+  | "u16" => some (g (Gen.in_range_u32_u16_ub a) (fun _ => sb (Gen.in_range_u32_u16 a)))
+  | "u32" => some (g (Gen.in_range_u32_u32_ub a) (fun _ => sb (Gen.in_range_u32_u32 a)))
+  | "u64" => some (g (Gen.in_range_u32_u64_ub a) (fun _ => sb (Gen.in_range_u32_u64 a)))
+  | "i8" => some (g (Gen.in_range_u32_i8_ub a) (fun _ => sb (Gen.in_range_u32_i8 a)))
+  | "i16" => some (g (Gen.in_range_u32_i16_ub a) (fun _ => sb (Gen.in_range_u32_i16 a)))
+  | "i32" => some (g (Gen.in_range_u32_i32_ub a) (fun _ => sb (Gen.in_range_u32_i32 a)))
+  | "i64" => some (g (Gen.in_range_u32_i64_ub a) (fun _ => sb (Gen.in_range_u32_i64 a)))
   | _ => none
 
 def p_cmp_u64 (ty : String) (a y : Int) : Option String :=
   match ty with
-  | "u8" => some (g (Gen.cmp_equal_u64_u8_ub a y && Gen.cmp_not_equal_u64_u8_ub a y && Gen.cmp_less_u64_u8_ub a y && Gen.cmp_greater_u64_u8_ub a y && Gen.cmp_less_equal_u64_u8_ub a y && Gen.cmp_greater_equal_u64_u8_ub a y) (String.join [sb (Gen.cmp_equal_u64_u8 a y), sb (Gen.cmp_not_equal_u64_u8 a y), sb (Gen.cmp_less_u64_u8 a y), sb (Gen.cmp_greater_u64_u8 a y), sb (Gen.cmp_less_equal_u64_u8 a y), sb (Gen.cmp_greater_equal_u64_u8 a y)]))
-  | "u16" => some (g (Gen.cmp_equal_u64_u16_ub a y && Gen.cmp_not_equal_u64_u16_ub a y && Gen.cmp_less_u64_u16_ub a y && Gen.cmp_greater_u64_u16_ub a y && Gen.cmp_less_equal_u64_u16_ub a y && Gen.cmp_greater_equal_u64_u16_ub a y) (String.join [sb (Gen.cmp_equal_u64_u16 a y), sb (Gen.cmp_not_equal_u64_u16 a y), sb (Gen.cmp_less_u64_u16 a y), sb (Gen.cmp_greater_u64_u16 a y), sb (Gen.cmp_less_equal_u64_u16 a y), sb (Gen.cmp_greater_equal_u64_u16 a y)]))
-  | "u32" => some (g (Gen.cmp_equal_u64_u32_ub a y && Gen.cmp_not_equal_u64_u32_ub a y && Gen.cmp_less_u64_u32_ub a y && Gen.cmp_greater_u64_u32_ub a y && Gen.cmp_less_equal_u64_u32_ub a y && Gen.cmp_greater_equal_u64_u32_ub a y) (String.join [sb (Gen.cmp_equal_u64_u32 a y), sb (Gen.cmp_not_equal_u64_u32 a y), sb (Gen.cmp_less_u64_u32 a y), sb (Gen.cmp_greater_u64_u32 a y), sb (Gen.cmp_less_equal_u64_u32 a y), sb (Gen.cmp_greater_equal_u64_u32 a y)]))
-  | "u64" => some (g (Gen.cmp_equal_u64_u64_ub a y && Gen.cmp_not_equal_u64_u64_ub a y && Gen.cmp_less_u64_u64_ub a y && Gen.cmp_greater_u64_u64_ub a y && Gen.cmp_less_equal_u64_u64_ub a y && Gen.cmp_greater_equal_u64_u64_ub a y) (String.join [sb (Gen.cmp_equal_u64_u64 a y), sb (Gen.cmp_not_equal_u64_u64 a y), sb (Gen.cmp_less_u64_u64 a y), sb (Gen.cmp_greater_u64_u64 a y), sb (Gen.cmp_less_equal_u64_u64 a y), sb (Gen.cmp_greater_equal_u64_u64 a y)]))
-  | "i8" => some (g (Gen.cmp_equal_u64_i8_ub a y && Gen.cmp_not_equal_u64_i8_ub a y && Gen.cmp_less_u64_i8_ub a y && Gen.cmp_greater_u64_i8_ub a y && Gen.cmp_less_equal_u64_i8_ub a y && Gen.cmp_greater_equal_u64_i8_ub a y) (String.join [sb (Gen.cmp_equal_u64_i8 a y), sb (Gen.cmp_not_equal_u64_i8 a y), sb (Gen.cmp_less_u64_i8 a y), sb (Gen.cmp_greater_u64_i8 a y), sb (Gen.cmp_less_equal_u64_i8 a y), sb (Gen.cmp_greater_equal_u64_i8 a y)]))
-  | "i16" => some (g (Gen.cmp_equal_u64_i16_ub a y && Gen.cmp_not_equal_u64_i16_ub a y && Gen.cmp_less_u64_i16_ub a y && Gen.cmp_greater_u64_i16_ub a y && Gen.cmp_less_equal_u64_i16_ub a y && Gen.cmp_greater_equal_u64_i16_ub a y) (String.join [sb (Gen.cmp_equal_u64_i16 a y), sb (Gen.cmp_not_equal_u64_i16 a y), sb (Gen.cmp_less_u64_i16 a y), sb (Gen.cmp_greater_u64_i16 a y), sb (Gen.cmp_less_equal_u64_i16 a y), sb (Gen.cmp_greater_equal_u64_i16 a y)]))
-  | "i32" => some (g (Gen.cmp_equal_u64_i32_ub a y && Gen.cmp_not_equal_u64_i32_ub a y && Gen.cmp_less_u64_i32_ub a y && Gen.cmp_greater_u64_i32_ub a y && Gen.cmp_less_equal_u64_i32_ub a y && Gen.cmp_greater_equal_u64_i32_ub a y) (String.join [sb (Gen.cmp_equal_u64_i32 a y), sb (Gen.cmp_not_equal_u64_i32 a y), sb (Gen.cmp_less_u64_i32 a y), sb (Gen.cmp_greater_u64_i32 a y), sb (Gen.cmp_less_equal_u64_i32 a y), sb (Gen.cmp_greater_equal_u64_i32 a y)]))
-  | "i64" => some (g (Gen.cmp_equal_u64_i64_ub a y && Gen.cmp_not_equal_u64_i64_ub a y && Gen.cmp_less_u64_i64_ub a y && Gen.cmp_greater_u64_i64_ub a y && Gen.cmp_less_equal_u64_i64_ub a y && Gen.cmp_greater_equal_u64_i64_ub a y) (String.join [sb (Gen.cmp_equal_u64_i64 a y), sb (Gen.cmp_not_equal_u64_i64 a y), sb (Gen.cmp_less_u64_i64 a y), sb (Gen.cmp_greater_u64_i64 a y), sb (Gen.cmp_less_equal_u64_i64 a y), sb (Gen.cmp_greater_equal_u64_i64 a y)]))
+  | "u8" => some (g (Gen.cmp_equal_u64_u8_ub a y && Gen.cmp_not_equal_u64_u8_ub a y && Gen.cmp_less_u64_u8_ub a y && Gen.cmp_greater_u64_u8_ub a y && Gen.cmp_less_equal_u64_u8_ub a y && Gen.cmp_greater_equal_u64_u8_ub a y) (fun _ => String.join [sb (Gen.cmp_equal_u64_u8 a y), sb (Gen.cmp_not_equal_u64_u8 a y), sb (Gen.cmp_less_u64_u8 a y), sb (Gen.cmp_greater_u64_u8 a y), sb (Gen.cmp_less_equal_u64_u8 a y), sb (Gen.cmp_greater_equal_u64_u8 a y)]))
+  | "u16" => some (g (Gen.cmp_equal_u64_u16_ub a y && Gen.cmp_not_equal_u64_u16_ub a y && Gen.cmp_less_u64_u16_ub a y && Gen.cmp_greater_u64_u16_ub a y && Gen.cmp_less_equal_u64_u16_ub a y && Gen.cmp_greater_equal_u64_u16_ub a y) (fun _ => String.join [sb (Gen.cmp_equal_u64_u16 a y), sb (Gen.cmp_not_equal_u64_u16 a y), sb (Gen.cmp_less_u64_u16 a y), sb (Gen.cmp_greater_u64_u16 a y), sb (Gen.cmp_less_equal_u64_u16 a y), sb (Gen.cmp_greater_equal_u64_u16 a y)]))
+  | "u32" => some (g (Gen.cmp_equal_u64_u32_ub a y && Gen.cmp_not_equal_u64_u32_ub a y && Gen.cmp_less_u64_u32_ub a y && Gen.cmp_greater_u64_u32_ub a y && Gen.cmp_less_equal_u64_u32_ub a y && Gen.cmp_greater_equal_u64_u32_ub a y) (fun _ => String.join [sb (Gen.cmp_equal_u64_u32 a y), sb (Gen.cmp_not_equal_u64_u32 a y), sb (Gen.cmp_less_u64_u32 a y), sb (Gen.cmp_greater_u64_u32 a y), sb (Gen.cmp_less_equal_u64_u32 a y), sb (Gen.cmp_greater_equal_u64_u32 a y)]))
+  | "u64" => some (g (Gen.cmp_equal_u64_u64_ub a y && Gen.cmp_not_equal_u64_u64_ub a y && Gen.cmp_less_u64_u64_ub a y && Gen.cmp_greater_u64_u64_ub a y && Gen.cmp_less_equal_u64_u64_ub a y && Gen.cmp_greater_equal_u64_u64_ub a y) (fun _ => String.join [sb (Gen.cmp_equal_u64_u64 a y), sb (Gen.cmp_not_equal_u64_u64 a y), sb (Gen.cmp_less_u64_u64 a y), sb (Gen.cmp_greater_u64_u64 a y), sb (Gen.cmp_less_equal_u64_u64 a y), sb (Gen.cmp_greater_equal_u64_u64 a y)]))
+  | "i8" => some (g (Gen.cmp_equal_u64_i8_ub a y && Gen.cmp_not_equal_u64_i8_ub a y && Gen.cmp_less_u64_i8_ub a y && Gen.cmp_greater_u64_i8_ub a y && Gen.cmp_less_equal_u64_i8_ub a y && Gen.cmp_greater_equal_u64_i8_ub a y) (fun _ => String.join [sb (Gen.cmp_equal_u64_i8 a y), sb (Gen.cmp_not_equal_u64_i8 a y), sb (Gen.cmp_less_u64_i8 a y), sb (Gen.cmp_greater_u64_i8 a y), sb (Gen.cmp_less_equal_u64_i8 a y), sb (Gen.cmp_greater_equal_u64_i8 a y)]))
+  | "i16" => some (g (Gen.cmp_equal_u64_i16_ub a y && Gen.cmp_not_equal_u64_i16_ub a y && Gen.cmp_less_u64_i16_ub a y && Gen.cmp_greater_u64_i16_ub a y && Gen.cmp_less_equal_u64_i16_ub a y && Gen.cmp_greater_equal_u64_i16_ub a y) (fun _ => String.join [sb (Gen.cmp_equal_u64_i16 a y), sb (Gen.cmp_not_equal_u64_i16 a y), sb (Gen.cmp_less_u64_i16 a y), sb (Gen.cmp_greater_u64_i16 a y), sb (Gen.cmp_less_equal_u64_i16 a y), sb (Gen.cmp_greater_equal_u64_i16 a y)]))
+  | "i32" => some (g (Gen.cmp_equal_u64_i32_ub a y && Gen.cmp_not_equal_u64_i32_ub a y && Gen.cmp_less_u64_i32_ub a y && Gen.cmp_greater_u64_i32_ub a y && Gen.cmp_less_equal_u64_i32_ub a y && Gen.cmp_greater_equal_u64_i32_ub a y) (fun _ => String.join [sb (Gen.cmp_equal_u64_i32 a y), sb (Gen.cmp_not_equal_u64_i32 a y), sb (Gen.cmp_less_u64_i32 a y), sb (Gen.cmp_greater_u64_i32 a y), sb (Gen.cmp_less_equal_u64_i32 a y), sb (Gen.cmp_greater_equal_u64_i32 a y)]))
+  | "i64" => some (g (Gen.cmp_equal_u64_i64_ub a y && Gen.cmp_not_equal_u64_i64_ub a y && Gen.cmp_less_u64_i64_ub a y && Gen.cmp_greater_u64_i64_ub a y && Gen.cmp_less_equal_u64_i64_ub a y && Gen.cmp_greater_equal_u64_i64_ub a y) (fun _ => String.join [sb (Gen.cmp_equal_u64_i64 a y), sb (Gen.cmp_not_equal_u64_i64 a y), sb (Gen.cmp_less_u64_i64 a y), sb (Gen.cmp_greater_u64_i64 a y), sb (Gen.cmp_less_equal_u64_i64 a y), sb (Gen.cmp_greater_equal_u64_i64 a y)]))
   | _ => none
 
 def p_saturate_cast_u64 (ty : String) (a : Int) : Option String :=
   match ty with
-  | "u8" => some (g (Gen.saturate_cast_u64_u8_ub a) (toString (Gen.saturate_cast_u64_u8 a)))
-  | "u16" => some (g (Gen.saturate_cast_u64_u16_ub a) (toString (Gen.saturate_cast_u64_u16 a)))
-  | "u32" => some (g (Gen.saturate_cast_u64_u32_ub a) (toString (Gen.saturate_cast_u64_u32 a)))
-  | "u64" => some (g (Gen.saturate_cast_u64_u64_ub a) (toString (Gen.saturate_cast_u64_u64 a)))
-  | "i8" => some (g (Gen.saturate_cast_u64_i8_ub a) (toString (Gen.saturate_cast_u64_i8 a)))
-  | "i16" => some (g (Gen.saturate_cast_u64_i16_ub a) (toString (Gen.saturate_cast_u64_i16 a)))
-  | "i32" => some (g (Gen.saturate_cast_u64_i32_ub a) (toString (Gen.saturate_cast_u64_i32 a)))
-  | "i64" => some (g (Gen.saturate_cast_u64_i64_ub a) (toString (Gen.saturate_cast_u64_i64 a)))
+  | "u8" => some (g (Gen.saturate_cast_u64_u8_ub a) (fun _ => toString (Gen.saturate_cast_u64_u8 a)))
+  | "u16" => some (g (Gen.saturate_cast_u64_u16_ub a) (fun _ => toString (Gen.saturate_cast_u64_u16 a)))
+  | "u32" => some (g (Gen.saturate_cast_u64_u32_ub a) (fun _ => toString (Gen.saturate_cast_u64_u32 a)))
+  | "u64" => some (g (Gen.saturate_cast_u64_u64_ub a) (fun _ => toString (Gen.saturate_cast_u64_u64 a)))
+  | "i8" => some (g (Gen.saturate_cast_u64_i8_ub a) (fun _ => toString (Gen.saturate_cast_u64_i8 a)))
+  | "i16" => some (g (Gen.saturate_cast_u64_i16_ub a) (fun _ => toString (Gen.saturate_cast_u64_i16 a)))
+  | "i32" => some (g (Gen.saturate_cast_u64_i32_ub a) (fun _ => toString (Gen.saturate_cast_u64_i32 a)))
+  | "i64" => some (g (Gen.saturate_cast_u64_i64_ub a) (fun _ => toString (Gen.saturate_cast_u64_i64 a)))
   | _ => none
 
 def p_in_range_u64 (ty : String) (a : Int) : Option String :=
   match ty with
-  | "u8" => some (g (Gen.in_range_u64_u8_ub a) (sb (Gen.in_range_u64_u8 a)))
-  | "u16" => some (g (Gen.in_range_u64_u16_ub a) (sb (Gen.in_range_u64_u16 a)))
-  | "u32" => some (g (Gen.in_range_u64_u32_ub a) (sb (Gen.in_range_u64_u32 a)))
-  | "u64" => some (g (Gen.in_range_u64_u64_ub a) (sb (Gen.in_range_u64_u64 a)))
-  | "i8" => some (g (Gen.in_range_u64_i8_ub a) (sb (Gen.in_range_u64_i8 a)))
-  | "i16" => some (g (Gen.in_range_u64_i16_ub a) (sb (Gen.in_range_u64_i16 a)))
-  | "i32" => some (g (Gen.in_range_u64_i32_ub a) (sb (Gen.in_range_u64_i32 a)))
-  | "i64" => some (g (Gen.in_range_u64_i64_ub a) (sb (Gen.in_range_u64_i64 a)))
+  | "u8" => some (g (Gen.in_range_u64_u8_ub a) (fun _ => sb (Gen.in_range_u64_u8 a)))
+  | "u16" => some (g (Gen.in_range_u64_u16_ub a) (fun _ => sb (Gen.in_range_u64_u16 a)))
+  | "u32" => some (g (Gen.in_range_u64_u32_ub a) (fun _ => sb (Gen.in_range_u64_u32 a)))
+  | "u64" => some (g (Gen.in_range_u64_u64_ub a) (fun _ => sb (Gen.in_range_u64_u64 a)))
+  | "i8" => some (g (Gen.in_range_u64_i8_ub a) (fun _ => sb (Gen.in_range_u64_i8 a)))
+  | "i16" => some (g (Gen.in_range_u64_i16_ub a) (fun _ => sb (Gen.in_range_u64_i16 a)))
+  | "i32" => some (g (Gen.in_range_u64_i32_ub a) (fun _ => sb (Gen.in_range_u64_i32 a)))
+  | "i64" => some (g (Gen.in_range_u64_i64_ub a) (fun _ => sb (Gen.in_range_u64_i64 a)))
   | _ => none
 
 def p_cmp_i8 (ty : String) (a y : Int) : Option String :=
   match ty with
-  | "u8" => some (g (Gen.cmp_equal_i8_u8_ub a y && Gen.cmp_not_equal_i8_u8_ub a y && Gen.cmp_less_i8_u8_ub a y && Gen.cmp_greater_i8_u8_ub a y && Gen.cmp_less_equal_i8_u8_ub a y && Gen.cmp_greater_equal_i8_u8_ub a y) (String.join [sb (Gen.cmp_equal_i8_u8 a y), sb (Gen.cmp_not_equal_i8_u8 a y), sb (Gen.cmp_less_i8_u8 a y), sb (Gen.cmp_greater_i8_u8 a y), sb (Gen.cmp_less_equal_i8_u8 a y), sb (Gen.cmp_greater_equal_i8_u8 a y)]))
-  | "u16" => some (g (Gen.cmp_equal_i8_u16_ub a y && Gen.cmp_not_equal_i8_u16_ub a y && Gen.cmp_less_i8_u16_ub a y && Gen.cmp_greater_i8_u16_ub a y && Gen.cmp_less_equal_i8_u16_ub a y && Gen.cmp_greater_equal_i8_u16_ub a y) (String.join [sb (Gen.cmp_equal_i8_u16 a y), sb (Gen.cmp_not_equal_i8_u16 a y), sb (Gen.cmp_less_i8_u16 a y), sb (Gen.cmp_greater_i8_u16 a y), sb (Gen.cmp_less_equal_i8_u16 a y), sb (Gen.cmp_greater_equal_i8_u16 a y)]))
-  | "u32" => some (g (Gen.cmp_equal_i8_u32_ub a y && Gen.cmp_not_equal_i8_u32_ub a y && Gen.cmp_less_i8_u32_ub a y && Gen.cmp_greater_i8_u32_ub a y && Gen.cmp_less_equal_i8_u32_ub a y && Gen.cmp_greater_equal_i8_u32_ub a y) (String.join [sb (Gen.cmp_equal_i8_u32 a y), sb (Gen.cmp_not_equal_i8_u32 a y), sb (Gen.cmp_less_i8_u32 a y), sb (Gen.cmp_greater_i8_u32 a y), sb (Gen.cmp_less_equal_i8_u32 a y), sb (Gen.cmp_greater_equal_i8_u32 a y)]))
-  | "u64" => some (g (Gen.cmp_equal_i8_u64_ub a y && Gen.cmp_not_equal_i8_u64_ub a y && Gen.cmp_less_i8_u64_ub a y && Gen.cmp_greater_i8_u64_ub a y && Gen.cmp_less_equal_i8_u64_ub a y && Gen.cmp_greater_equal_i8_u64_ub a y) (String.join [sb (Gen.cmp_equal_i8_u64 a y), sb (Gen.cmp_not_equal_i8_u64 a y), sb (Gen.cmp_less_i8_u64 a y), sb (Gen.cmp_greater_i8_u64 a y), sb (Gen.cmp_less_equal_i8_u64 a y), sb (Gen.cmp_greater_equal_i8_u64 a y)]))
-  | "i8" => some (g (Gen.cmp_equal_i8_i8_ub a y && Gen.cmp_not_equal_i8_i8_ub a y && Gen.cmp_less_i8_i8_ub a y && Gen.cmp_greater_i8_i8_ub a y && Gen.cmp_less_equal_i8_i8_ub a y && Gen.cmp_greater_equal_i8_i8_ub a y) (String.join [sb (Gen.cmp_equal_i8_i8 a y), sb (Gen.cmp_not_equal_i8_i8 a y), sb (Gen.cmp_less_i8_i8 a y), sb (Gen.cmp_greater_i8_i8 a y), sb (Gen.cmp_less_equal_i8_i8 a y), sb (Gen.cmp_greater_equal_i8_i8 a y)]))
-  | "i16" => some (g (Gen.cmp_equal_i8_i16_ub a y && Gen.cmp_not_equal_i8_i16_ub a y && Gen.cmp_less_i8_i16_ub a y && Gen.cmp_greater_i8_i16_ub a y && Gen.cmp_less_equal_i8_i16_ub a y && Gen.cmp_greater_equal_i8_i16_ub a y) (String.join [sb (Gen.cmp_equal_i8_i16 a y), sb (Gen.cmp_not_equal_i8_i16 a y), sb (Gen.cmp_less_i8_i16 a y), sb (Gen.cmp_greater_i8_i16 a y), sb (Gen.cmp_less_equal_i8_i16 a y), sb (Gen.cmp_greater_equal_i8_i16 a y)]))
-  | "i32" => some (g (Gen.cmp_equal_i8_i32_ub a y && Gen.cmp_not_equal_i8_i32_ub a y && Gen.cmp_less_i8_i32_ub a y && Gen.cmp_greater_i8_i32_ub a y && Gen.cmp_less_equal_i8_i32_ub a y && Gen.cmp_greater_equal_i8_i32_ub a y) (String.join [sb (Gen.cmp_equal_i8_i32 a y), sb (Gen.cmp_not_equal_i8_i32 a y), sb (Gen.cmp_less_i8_i32 a y), sb (Gen.cmp_greater_i8_i32 a y), sb (Gen.cmp_less_equal_i8_i32 a y), sb (Gen.cmp_greater_equal_i8_i32 a y)]))
-  | "i64" => some (g (Gen.cmp_equal_i8_i64_ub a y && Gen.cmp_not_equal_i8_i64_ub a y && Gen.cmp_less_i8_i64_ub a y && Gen.cmp_greater_i8_i64_ub a y && Gen.cmp_less_equal_i8_i64_ub a y && Gen.cmp_greater_equal_i8_i64_ub a y) (String.join [sb (Gen.cmp_equal_i8_i64 a y), sb (Gen.cmp_not_equal_i8_i64 a y), sb (Gen.cmp_less_i8_i64 a y), sb (Gen.cmp_greater_i8_i64 a y), sb (Gen.cmp_less_equal_i8_i64 a y), sb (Gen.cmp_greater_equal_i8_i64 a y)]))
+  | "u8" => some (g (Gen.cmp_equal_i8_u8_ub a y && Gen.cmp_not_equal_i8_u8_ub a y && Gen.cmp_less_i8_u8_ub a y && Gen.cmp_greater_i8_u8_ub a y && Gen.cmp_less_equal_i8_u8_ub a y && Gen.cmp_greater_equal_i8_u8_ub a y) (fun _ => String.join [sb (Gen.cmp_equal_i8_u8 a y), sb (Gen.cmp_not_equal_i8_u8 a y), sb (Gen.cmp_less_i8_u8 a y), sb (Gen.cmp_greater_i8_u8 a y), sb (Gen.cmp_less_equal_i8_u8 a y), sb (Gen.cmp_greater_equal_i8_u8 a y)]))
+  | "u16" => some (g (Gen.cmp_equal_i8_u16_ub a y && Gen.cmp_not_equal_i8_u16_ub a y && Gen.cmp_less_i8_u16_ub a y && Gen.cmp_greater_i8_u16_ub a y && Gen.cmp_less_equal_i8_u16_ub a y && Gen.cmp_greater_equal_i8_u16_ub a y) (fun _ => String.join [sb (Gen.cmp_equal_i8_u16 a y), sb (Gen.cmp_not_equal_i8_u16 a y), sb (Gen.cmp_less_i8_u16 a y), sb (Gen.cmp_greater_i8_u16 a y), sb (Gen.cmp_less_equal_i8_u16 a y), sb (Gen.cmp_greater_equal_i8_u16 a y)]))
+  | "u32" => some (g (Gen.cmp_equal_i8_u32_ub a y && Gen.cmp_not_equal_i8_u32_ub a y && Gen.cmp_less_i8_u32_ub a y && Gen.cmp_greater_i8_u32_ub a y && Gen.cmp_less_equal_i8_u32_ub a y && Gen.cmp_greater_equal_i8_u32_ub a y) (fun _ => String.join [sb (Gen.cmp_equal_i8_u32 a y), sb (Gen.cmp_not_equal_i8_u32 a y), sb (Gen.cmp_less_i8_u32 a y), sb (Gen.cmp_greater_i8_u32 a y), sb (Gen.cmp_less_equal_i8_u32 a y), sb (Gen.cmp_greater_equal_i8_u32 a y)]))
+  | "u64" => some (g (Gen.cmp_equal_i8_u64_ub a y && Gen.cmp_not_equal_i8_u64_ub a y && Gen.cmp_less_i8_u64_ub a y && Gen.cmp_greater_i8_u64_ub a y && Gen.cmp_less_equal_i8_u64_ub a y && Gen.cmp_greater_equal_i8_u64_ub a y) (fun _ => String.join [sb (Gen.cmp_equal_i8_u64 a y), sb (Gen.cmp_not_equal_i8_u64 a y), sb (Gen.cmp_less_i8_u64 a y), sb (Gen.cmp_greater_i8_u64 a y), sb (Gen.cmp_less_equal_i8_u64 a y), sb (Gen.cmp_greater_equal_i8_u64 a y)]))
+  | "i8" => some (g (Gen.cmp_equal_i8_i8_ub a y && Gen.cmp_not_equal_i8_i8_ub a y && Gen.cmp_less_i8_i8_ub a y && Gen.cmp_greater_i8_i8_ub a y && Gen.cmp_less_equal_i8_i8_ub a y && Gen.cmp_greater_equal_i8_i8_ub a y) (fun _ => String.join [sb (Gen.cmp_equal_i8_i8 a y), sb (Gen.cmp_not_equal_i8_i8 a y), sb (Gen.cmp_less_i8_i8 a y), sb (Gen.cmp_greater_i8_i8 a y), sb (Gen.cmp_less_equal_i8_i8 a y), sb (Gen.cmp_greater_equal_i8_i8 a y)]))
+  | "i16" => some (g (Gen.cmp_equal_i8_i16_ub a y && Gen.cmp_not_equal_i8_i16_ub a y && Gen.cmp_less_i8_i16_ub a y && Gen.cmp_greater_i8_i16_ub a y && Gen.cmp_less_equal_i8_i16_ub a y && Gen.cmp_greater_equal_i8_i16_ub a y) (fun _ => String.join [sb (Gen.cmp_equal_i8_i16 a y), sb (Gen.cmp_not_equal_i8_i16 a y), sb (Gen.cmp_less_i8_i16 a y), sb (Gen.cmp_greater_i8_i16 a y), sb (Gen.cmp_less_equal_i8_i16 a y), sb (Gen.cmp_greater_equal_i8_i16 a y)]))
+  | "i32" => some (g (Gen.cmp_equal_i8_i32_ub a y && Gen.cmp_not_equal_i8_i32_ub a y && Gen.cmp_less_i8_i32_ub a y && Gen.cmp_greater_i8_i32_ub a y && Gen.cmp_less_equal_i8_i32_ub a y && Gen.cmp_greater_equal_i8_i32_ub a y) (fun _ => String.join [sb (Gen.cmp_equal_i8_i32 a y), sb (Gen.cmp_not_equal_i8_i32 a y), sb (Gen.cmp_less_i8_i32 a y), sb (Gen.cmp_greater_i8_i32 a y), sb (Gen.cmp_less_equal_i8_i32 a y), sb (Gen.cmp_greater_equal_i8_i32 a y)]))
+  | "i64" => some (g (Gen.cmp_equal_i8_i64_ub a y && Gen.cmp_not_equal_i8_i64_ub a y && Gen.cmp_less_i8_i64_ub a y && Gen.cmp_greater_i8_i64_ub a y && Gen.cmp_less_equal_i8_i64_ub a y && Gen.cmp_greater_equal_i8_i64_ub a y) (fun _ => String.join [sb (Gen.cmp_equal_i8_i64 a y), sb (Gen.cmp_not_equal_i8_i64 a y), sb (Gen.cmp_less_i8_i64 a y), sb (Gen.cmp_greater_i8_i64 a y), sb (Gen.cmp_less_equal_i8_i64 a y), sb (Gen.cmp_greater_equal_i8_i64 a y)]))
   | _ => none
 
 def p_saturate_cast_i8 (ty : String) (a : Int) : Option String :=
   match ty with
-  | "u8" => some (g (Gen.saturate_cast_i8_u8_ub a) (toString (Gen.saturate_cast_i8_u8 a)))
-  | "u16" => some (g (Gen.saturate_cast_i8_u16_ub a) (toString (Gen.saturate_cast_i8_u16 a)))
-  | "u32" => some (g (Gen.saturate_cast_i8_u32_ub a) (toString (Gen.saturate_cast_i8_u32 a)))
-  | "u64" => some (g (Gen.saturate_cast_i8_u64_ub a) (toString (Gen.saturate_cast_i8_u64 a)))
-  | "i8" => some (g (Gen.saturate_cast_i8_i8_ub a) (toString (Gen.saturate_cast_i8_i8 a)))
-  | "i16" => some (g (Gen.saturate_cast_i8_i16_ub a) (toString (Gen.saturate_cast_i8_i16 a)))
-  | "i32" => some (g (Gen.saturate_cast_i8_i32_ub a) (toString (Gen.saturate_cast_i8_i32 a)))
-  | "i64" => some (g (Gen.saturate_cast_i8_i64_ub a) (toString (Gen.saturate_cast_i8_i64 a)))
+  | "u8" => some (g (Gen.saturate_cast_i8_u8_ub a) (fun _ => toString (Gen.saturate_cast_i8_u8 a)))
+  | "u16" => some (g (Gen.saturate_cast_i8_u16_ub a) (fun _ => toString (Gen.saturate_cast_i8_u16 a)))
+  | "u32" => some (g (Gen.saturate_cast_i8_u32_ub a) (fun _ => toString (Gen.saturate_cast_i8_u32 a)))
+  | "u64" => some (g (Gen.saturate_cast_i8_u64_ub a) (fun _ => toString (Gen.saturate_cast_i8_u64 a)))
+  | "i8" => some (g (Gen.saturate_cast_i8_i8_ub a) (fun _ => toString (Gen.saturate_cast_i8_i8 a)))
+  | "i16" => some (g (Gen.saturate_cast_i8_i16_ub a) (fun _ => toString (Gen.saturate_cast_i8_i16 a)))
+  | "i32" => some (g (Gen.saturate_cast_i8_i32_ub a) (fun _ => toString (Gen.saturate_cast_i8_i32 a)))
+  | "i64" => some (g (Gen.saturate_cast_i8_i64_ub a) (fun _ => toString (Gen.saturate_cast_i8_i64 a)))
   | _ => none
 
 def p_in_range_i8 (ty : String) (a : Int) : Option String :=
   match ty with
-  | "u8" => some (g (Gen.in_range_i8_u8_ub a) (sb (Gen.in_range_i8_u8 a)))
-  | "u16" => some (g (Gen.in_range_i8_u16_ub a) (sb (Gen.in_range_i8_u16 a)))
-  | "u32" => some (g (Gen.in_range_i8_u32_ub a) (sb (Gen.in_range_i8_u32 a)))
-  | "u64" => some (g (Gen.in_range_i8_u64_ub a) (sb (Gen.in_range_i8_u64 a)))
-  | "i8" => some (g (Gen.in_range_i8_i8_ub a) (sb (Gen.in_range_i8_i8 a)))
-  | "i16" => some (g (Gen.in_range_i8_i16_ub a) (sb (Gen.in_range_i8_i16 a)))
-  | "i32" => some (g (Gen.in_range_i8_i32_ub a) (sb (Gen.in_range_i8_i32 a)))
-  | "i64" => some (g (Gen.in_range_i8_i64_ub a) (sb (Gen.in_range_i8_i64 a)))
+  | "u8" => some (g (Gen.in_range_i8_u8_ub a) (fun _ => sb (Gen.in_range_i8_u8 a)))
+  | "u16" => some (g (Gen.in_range_i8_u16_ub a) (fun _ => sb (Gen.in_range_i8_u16 a)))
+  | "u32" => some (g (Gen.in_range_i8_u32_ub a) (fun _ => sb (Gen.in_range_i8_u32 a)))
+  | "u64" => some (g (Gen.in_range_i8_u64_ub a) (fun _ => sb (Gen.in_range_i8_u64 a)))
+  | "i8" => some (g (Gen.in_range_i8_i8_ub a) (fun _ => sb (Gen.in_range_i8_i8 a)))
+  | "i16" => some (g (Gen.in_range_i8_i16_ub a) (fun _ => sb (Gen.in_range_i8_i16 a)))
+  | "i32" => some (g (Gen.in_range_i8_i32_ub a) (fun _ => sb (Gen.in_range_i8_i32 a)))
+  | "i64" => some (g (Gen.in_range_i8_i64_ub a) (fun _ => sb (Gen.in_range_i8_i64 a)))
   | _ => none
 
 def p_cmp_i16 (ty : String) (a y : Int) : Option String :=
   match ty with
-  | "u8" => some (g (Gen.cmp_equal_i16_u8_ub a y && Gen.cmp_not_equal_i16_u8_ub a y && Gen.cmp_less_i16_u8_ub a y && Gen.cmp_greater_i16_u8_ub a y && Gen.cmp_less_equal_i16_u8_ub a y && Gen.cmp_greater_equal_i16_u8_ub a y) (String.join [sb (Gen.cmp_equal_i16_u8 a y), sb (Gen.cmp_not_equal_i16_u8 a y), sb (Gen.cmp_less_i16_u8 a y), sb (Gen.cmp_greater_i16_u8 a y), sb (Gen.cmp_less_equal_i16_u8 a y), sb (Gen.cmp_greater_equal_i16_u8 a y)]))
-  | "u16" => some (g (Gen.cmp_equal_i16_u16_ub a y && Gen.cmp_not_equal_i16_u16_ub a y && Gen.cmp_less_i16_u16_ub a y && Gen.cmp_greater_i16_u16_ub a y && Gen.cmp_less_equal_i16_u16_ub a y && Gen.cmp_greater_equal_i16_u16_ub a y) (String.join [sb (Gen.cmp_equal_i16_u16 a y), sb (Gen.cmp_not_equal_i16_u16 a y), sb (Gen.cmp_less_i16_u16 a y), sb (Gen.cmp_greater_i16_u16 a y), sb (Gen.cmp_less_equal_i16_u16 a y), sb (Gen.cmp_greater_equal_i16_u16 a y)]))
-  | "u32" => some (g (Gen.cmp_equal_i16_u32_ub a y && Gen.cmp_not_equal_i16_u32_ub a y && Gen.cmp_less_i16_u32_ub a y && Gen.cmp_greater_i16_u32_ub a y && Gen.cmp_less_equal_i16_u32_ub a y && Gen.cmp_greater_equal_i16_u32_ub a y) (String.join [sb (Gen.cmp_equal_i16_u32 a y), sb (Gen.cmp_not_equal_i16_u32 a y), sb (Gen.cmp_less_i16_u32 a y), sb (Gen.cmp_greater_i16_u32 a y), sb (Gen.cmp_less_equal_i16_u32 a y), sb (Gen.cmp_greater_equal_i16_u32 a y)]))
-  | "u64" => some (g (Gen.cmp_equal_i16_u64_ub a y && Gen.cmp_not_equal_i16_u64_ub a y && Gen.cmp_less_i16_u64_ub a y && Gen.cmp_greater_i16_u64_ub a y && Gen.cmp_less_equal_i16_u64_ub a y && Gen.cmp_greater_equal_i16_u64_ub a y) (String.join [sb (Gen.cmp_equal_i16_u64 a y), sb (Gen.cmp_not_equal_i16_u64 a y), sb (Gen.cmp_less_i16_u64 a y), sb (Gen.cmp_greater_i16_u64 a y), sb (Gen.cmp_less_equal_i16_u64 a y), sb (Gen.cmp_greater_equal_i16_u64 a y)]))
-  | "i8" => some (g (Gen.cmp_equal_i16_i8_ub a y && Gen.cmp_not_equal_i16_i8_ub a y && Gen.cmp_less_i16_i8_ub a y && Gen.cmp_greater_i16_i8_ub a y && Gen.cmp_less_equal_i16_i8_ub a y && Gen.cmp_greater_equal_i16_i8_ub a y) (String.join [sb (Gen.cmp_equal_i16_i8 a y), sb (Gen.cmp_not_equal_i16_i8 a y), sb (Gen.cmp_less_i16_i8 a y), sb (Gen.cmp_greater_i16_i8 a y), sb (Gen.cmp_less_equal_i16_i8 a y), sb (Gen.cmp_greater_equal_i16_i8 a y)]))
-  | "i16" => some (g (Gen.cmp_equal_i16_i16_ub a y && Gen.cmp_not_equal_i16_i16_ub a y && Gen.cmp_less_i16_i16_ub a y && Gen.cmp_greater_i16_i16_ub a y && Gen.cmp_less_equal_i16_i16_ub a y && Gen.cmp_greater_equal_i16_i16_ub a y) (String.join [sb (Gen.cmp_equal_i16_i16 a y), sb (Gen.cmp_not_equal_i16_i16 a y), sb (Gen.cmp_less_i16_i16 a y), sb (Gen.cmp_greater_i16_i16 a y), sb (Gen.cmp_less_equal_i16_i16 a y), sb (Gen.cmp_greater_equal_i16_i16 a y)]))
-  | "i32" => some (g (Gen.cmp_equal_i16_i32_ub a y && Gen.cmp_not_equal_i16_i32_ub a y && Gen.cmp_less_i16_i32_ub a y && Gen.cmp_greater_i16_i32_ub a y && Gen.cmp_less_equal_i16_i32_ub a y && Gen.cmp_greater_equal_i16_i32_ub a y) (String.join [sb (Gen.cmp_equal_i16_i32 a y), sb (Gen.cmp_not_equal_i16_i32 a y), sb (Gen.cmp_less_i16_i32 a y), sb (Gen.cmp_greater_i16_i32 a y), sb (Gen.cmp_less_equal_i16_i32 a y), sb (Gen.cmp_greater_equal_i16_i32 a y)]))
-  | "i64" => some (g (Gen.cmp_equal_i16_i64_ub a y && Gen.cmp_not_equal_i16_i64_ub a y && Gen.cmp_less_i16_i64_ub a y && Gen.cmp_greater_i16_i64_ub a y && Gen.cmp_less_equal_i16_i64_ub a y && Gen.cmp_greater_equal_i16_i64_ub a y) (String.join [sb (Gen.cmp_equal_i16_i64 a y), sb (Gen.cmp_not_equal_i16_i64 a y), sb (Gen.cmp_less_i16_i64 a y), sb (Gen.cmp_greater_i16_i64 a y), sb (Gen.cmp_less_equal_i16_i64 a y), sb (Gen.cmp_greater_equal_i16_i64 a y)]))
+  | "u8" => some (g (Gen.cmp_equal_i16_u8_ub a y && Gen.cmp_not_equal_i16_u8_ub a y && Gen.cmp_less_i16_u8_ub a y && Gen.cmp_greater_i16_u8_ub a y && Gen.cmp_less_equal_i16_u8_ub a y && Gen.cmp_greater_equal_i16_u8_ub a y) (fun _ => String.join [sb (Gen.cmp_equal_i16_u8 a y), sb (Gen.cmp_not_equal_i16_u8 a y), sb (Gen.cmp_less_i16_u8 a y), sb (Gen.cmp_greater_i16_u8 a y), sb (Gen.cmp_less_equal_i16_u8 a y), sb (Gen.cmp_greater_equal_i16_u8 a y)]))
+  | "u16" => some (g (Gen.cmp_equal_i16_u16_ub a y && Gen.cmp_not_equal_i16_u16_ub a y && Gen.cmp_less_i16_u16_ub a y && Gen.cmp_greater_i16_u16_ub a y && Gen.cmp_less_equal_i16_u16_ub a y && Gen.cmp_greater_equal_i16_u16_ub a y) (fun _ => String.join [sb (Gen.cmp_equal_i16_u16 a y), sb (Gen.cmp_not_equal_i16_u16 a y), sb (Gen.cmp_less_i16_u16 a y), sb (Gen.cmp_greater_i16_u16 a y), sb (Gen.cmp_less_equal_i16_u16 a y), sb (Gen.cmp_greater_equal_i16_u16 a y)]))
+  | "u32" => some (g (Gen.cmp_equal_i16_u32_ub a y && Gen.cmp_not_equal_i16_u32_ub a y && Gen.cmp_less_i16_u32_ub a y && Gen.cmp_greater_i16_u32_ub a y && Gen.cmp_less_equal_i16_u32_ub a y && Gen.cmp_greater_equal_i16_u32_ub a y) (fun _ => String.join [sb (Gen.cmp_equal_i16_u32 a y), sb (Gen.cmp_not_equal_i16_u32 a y), sb (Gen.cmp_less_i16_u32 a y), sb (Gen.cmp_greater_i16_u32 a y), sb (Gen.cmp_less_equal_i16_u32 a y), sb (Gen.cmp_greater_equal_i16_u32 a y)]))
+  | "u64" => some (g (Gen.cmp_equal_i16_u64_ub a y && Gen.cmp_not_equal_i16_u64_ub a y && Gen.cmp_less_i16_u64_ub a y && Gen.cmp_greater_i16_u64_ub a y && Gen.cmp_less_equal_i16_u64_ub a y && Gen.cmp_greater_equal_i16_u64_ub a y) (fun _ => String.join [sb (Gen.cmp_equal_i16_u64 a y), sb (Gen.cmp_not_equal_i16_u64 a y), sb (Gen.cmp_less_i16_u64 a y), sb (Gen.cmp_greater_i16_u64 a y), sb (Gen.cmp_less_equal_i16_u64 a y), sb (Gen.cmp_greater_equal_i16_u64 a y)]))
+  | "i8" => some (g (Gen.cmp_equal_i16_i8_ub a y && Gen.cmp_not_equal_i16_i8_ub a y && Gen.cmp_less_i16_i8_ub a y && Gen.cmp_greater_i16_i8_ub a y && Gen.cmp_less_equal_i16_i8_ub a y && Gen.cmp_greater_equal_i16_i8_ub a y) (fun _ => String.join [sb (Gen.cmp_equal_i16_i8 a y), sb (Gen.cmp_not_equal_i16_i8 a y), sb (Gen.cmp_less_i16_i8 a y), sb (Gen.cmp_greater_i16_i8 a y), sb (Gen.cmp_less_equal_i16_i8 a y), sb (Gen.cmp_greater_equal_i16_i8 a y)]))
+  | "i16" => some (g (Gen.cmp_equal_i16_i16_ub a y && Gen.cmp_not_equal_i16_i16_ub a y && Gen.cmp_less_i16_i16_ub a y && Gen.cmp_greater_i16_i16_ub a y && Gen.cmp_less_equal_i16_i16_ub a y && Gen.cmp_greater_equal_i16_i16_ub a y) (fun _ => String.join [sb (Gen.cmp_equal_i16_i16 a y), sb (Gen.cmp_not_equal_i16_i16 a y), sb (Gen.cmp_less_i16_i16 a y), sb (Gen.cmp_greater_i16_i16 a y), sb (Gen.cmp_less_equal_i16_i16 a y), sb (Gen.cmp_greater_equal_i16_i16 a y)]))
+  | "i32" => some (g (Gen.cmp_equal_i16_i32_ub a y && Gen.cmp_not_equal_i16_i32_ub a y && Gen.cmp_less_i16_i32_ub a y && Gen.cmp_greater_i16_i32_ub a y && Gen.cmp_less_equal_i16_i32_ub a y && Gen.cmp_greater_equal_i16_i32_ub a y) (fun _ => String.join [sb (Gen.cmp_equal_i16_i32 a y), sb (Gen.cmp_not_equal_i16_i32 a y), sb (Gen.cmp_less_i16_i32 a y), sb (Gen.cmp_greater_i16_i32 a y), sb (Gen.cmp_less_equal_i16_i32 a y), sb (Gen.cmp_greater_equal_i16_i32 a y)]))
+  | "i64" => some (g (Gen.cmp_equal_i16_i64_ub a y && Gen.cmp_not_equal_i16_i64_ub a y && Gen.cmp_less_i16_i64_ub a y && Gen.cmp_greater_i16_i64_ub a y && Gen.cmp_less_equal_i16_i64_ub a y && Gen.cmp_greater_equal_i16_i64_ub a y) (fun _ => String.join [sb (Gen.cmp_equal_i16_i64 a y), sb (Gen.cmp_not_equal_i16_i64 a y), sb (Gen.cmp_less_i16_i64 a y), sb (Gen.cmp_greater_i16_i64 a y), sb (Gen.cmp_less_equal_i16_i64 a y), sb (Gen.cmp_greater_equal_i16_i64 a y)]))
   | _ => none
 
 def p_saturate_cast_i16 (ty : String) (a : Int) : Option String :=
   match ty with
-  | "u8" => some (g (Gen.saturate_cast_i16_u8_ub a) (toString (Gen.saturate_cast_i16_u8 a)))
-  | "u16" => some (g (Gen.saturate_cast_i16_u16_ub a) (toString (Gen.saturate_cast_i16_u16 a)))
-  | "u32" => some (g (Gen.saturate_cast_i16_u32_ub a) (toString (Gen.saturate_cast_i16_u32 a)))
-  | "u64" => some (g (Gen.saturate_cast_i16_u64_ub a) (toString (Gen.saturate_cast_i16_u64 a)))
-  | "i8" => some (g (Gen.saturate_cast_i16_i8_ub a) (toString (Gen.saturate_cast_i16_i8 a)))
-  | "i16" => some (g (Gen.saturate_cast_i16_i16_ub a) (toString (Gen.saturate_cast_i16_i16 a)))
-  | "i32" => some (g (Gen.saturate_cast_i16_i32_ub a) (toString (Gen.saturate_cast_i16_i32 a)))
-  | "i64" => some (g (Gen.saturate_cast_i16_i64_ub a) (toString (Gen.saturate_cast_i16_i64 a)))
+  | "u8" => some (g (Gen.saturate_cast_i16_u8_ub a) (fun _ => toString (Gen.saturate_cast_i16_u8 a)))
+  | "u16" => some (g (Gen.saturate_cast_i16_u16_ub a) (fun _ => toString (Gen.saturate_cast_i16_u16 a)))
+  | "u32" => some (g (Gen.saturate_cast_i16_u32_ub a) (fun _ => toString (Gen.saturate_cast_i16_u32 a)))
+  | "u64" => some (g (Gen.saturate_cast_i16_u64_ub a) (fun _ => toString (Gen.saturate_cast_i16_u64 a)))
+  | "i8" => some (g (Gen.saturate_cast_i16_i8_ub a) (fun _ => toString (Gen.saturate_cast_i16_i8 a)))
+  | "i16" => some (g (Gen.saturate_cast_i16_i16_ub a) (fun _ => toString (Gen.saturate_cast_i16_i16 a)))
+  | "i32" => some (g (Gen.saturate_cast_i16_i32_ub a) (fun _ => toString (Gen.saturate_cast_i16_i32 a)))
+  | "i64" => some (g (Gen.saturate_cast_i16_i64_ub a) (fun _ => toString (Gen.saturate_cast_i16_i64 a)))
   | _ => none
 
 def p_in_range_i16 (ty : String) (a : Int) : Option String :=
   match ty with
-  | "u8" => some (g (Gen.in_range_i16_u8_ub a) (sb (Gen.in_range_i16_u8 a)))
-  | "u16" => some (g (Gen.in_range_i16_u16_ub a) (sb (Gen.in_range_i16_u16 a)))
-  | "u32" => some (g (Gen.in_range_i16_u32_ub a) (sb (Gen.in_range_i16_u32 a)))
-  | "u64" => some (g (Gen.in_range_i16_u64_ub a) (sb (Gen.in_range_i16_u64 a)))
-  | "i8" => some (g (Gen.in_range_i16_i8_ub a) (sb (Gen.in_range_i16_i8 a)))
-  | "i16" => some (g (Gen.in_range_i16_i16_ub a) (sb (Gen.in_range_i16_i16 a)))
-  | "i32" => some (g (Gen.in_range_i16_i32_ub a) (sb (Gen.in_range_i16_i32 a)))
-  | "i64" => some (g (Gen.in_range_i16_i64_ub a) (sb (Gen.in_range_i16_i64 a)))
+  | "u8" => some (g (Gen.in_range_i16_u8_ub a) (fun _ => sb (Gen.in_range_i16_u8 a)))
+  | "u16" => some (g (Gen.in_range_i16_u16_ub a) (fun _ => sb (Gen.in_range_i16_u16 a)))
+  | "u32" => some (g (Gen.in_range_i16_u32_ub a) (fun _ => sb (Gen.in_range_i16_u32 a)))
+  | "u64" => some (g (Gen.in_range_i16_u64_ub a) (fun _ => sb (Gen.in_range_i16_u64 a)))
+  | "i8" => some (g (Gen.in_range_i16_i8_ub a) (fun _ => sb (Gen.in_range_i16_i8 a)))
+  | "i16" => some (g (Gen.in_range_i16_i16_ub a) (fun _ => sb (Gen.in_range_i16_i16 a)))
+  | "i32" => some (g (Gen.in_range_i16_i32_ub a) (fun _ => sb (Gen.in_range_i16_i32 a)))
+  | "i64" => some (g (Gen.in_range_i16_i64_ub a) (fun _ => sb (Gen.in_range_i16_i64 a)))
   | _ => none
 
 def p_cmp_i32 (ty : String) (a y : Int) : Option String :=
   match ty with
-  | "u8" => some (g (Gen.cmp_equal_i32_u8_ub a y && Gen.cmp_not_equal_i32_u8_ub a y && Gen.cmp_less_i32_u8_ub a y && Gen.cmp_greater_i32_u8_ub a y && Gen.cmp_less_equal_i32_u8_ub a y && Gen.cmp_greater_equal_i32_u8_ub a y) (String.join [sb (Gen.cmp_equal_i32_u8 a y), sb (Gen.cmp_not_equal_i32_u8 a y), sb (Gen.cmp_less_i32_u8 a y), sb (Gen.cmp_greater_i32_u8 a y), sb (Gen.cmp_less_equal_i32_u8 a y), sb (Gen.cmp_greater_equal_i32_u8 a y)]))
-  | "u16" => some (g (Gen.cmp_equal_i32_u16_ub a y && Gen.cmp_not_equal_i32_u16_ub a y && Gen.cmp_less_i32_u16_ub a y && Gen.cmp_greater_i32_u16_ub a y && Gen.cmp_less_equal_i32_u16_ub a y && Gen.cmp_greater_equal_i32_u16_ub a y) (String.join [sb (Gen.cmp_equal_i32_u16 a y), sb (Gen.cmp_not_equal_i32_u16 a y), sb (Gen.cmp_less_i32_u16 a y), sb (Gen.cmp_greater_i32_u16 a y), sb (Gen.cmp_less_equal_i32_u16 a y), sb (Gen.cmp_greater_equal_i32_u16 a y)]))
-  | "u32" => some (g (Gen.cmp_equal_i32_u32_ub a y && Gen.cmp_not_equal_i32_u32_ub a y && Gen.cmp_less_i32_u32_ub a y && Gen.cmp_greater_i32_u32_ub a y && Gen.cmp_less_equal_i32_u32_ub a y && Gen.cmp_greater_equal_i32_u32_ub a y) (String.join [sb (Gen.cmp_equal_i32_u32 a y), sb (Gen.cmp_not_equal_i32_u32 a y), sb (Gen.cmp_less_i32_u32 a y), sb (Gen.cmp_greater_i32_u32 a y), sb (Gen.cmp_less_equal_i32_u32 a y), sb (Gen.cmp_greater_equal_i32_u32 a y)]))
-  | "u64" => some (g (Gen.cmp_equal_i32_u64_ub a y && Gen.cmp_not_equal_i32_u64_ub a y && Gen.cmp_less_i32_u64_ub a y && Gen.cmp_greater_i32_u64_ub a y && Gen.cmp_less_equal_i32_u64_ub a y && Gen.cmp_greater_equal_i32_u64_ub a y) (String.join [sb (Gen.cmp_equal_i32_u64 a y), sb (Gen.cmp_not_equal_i32_u64 a y), sb (Gen.cmp_less_i32_u64 a y), sb (Gen.cmp_greater_i32_u64 a y), sb (Gen.cmp_less_equal_i32_u64 a y), sb (Gen.cmp_greater_equal_i32_u64 a y)]))
-  | "i8" => some (g (Gen.cmp_equal_i32_i8_ub a y && Gen.cmp_not_equal_i32_i8_ub a y && Gen.cmp_less_i32_i8_ub a y && Gen.cmp_greater_i32_i8_ub a y && Gen.cmp_less_equal_i32_i8_ub a y && Gen.cmp_greater_equal_i32_i8_ub a y) (String.join [sb (Gen.cmp_equal_i32_i8 a y), sb (Gen.cmp_not_equal_i32_i8 a y), sb (Gen.cmp_less_i32_i8 a y), sb (Gen.cmp_greater_i32_i8 a y), sb (Gen.cmp_less_equal_i32_i8 a y), sb (Gen.cmp_greater_equal_i32_i8 a y)]))
-  | "i16" => some (g (Gen.cmp_equal_i32_i16_ub a y && Gen.cmp_not_equal_i32_i16_ub a y && Gen.cmp_less_i32_i16_ub a y && Gen.cmp_greater_i32_i16_ub a y && Gen.cmp_less_equal_i32_i16_ub a y && Gen.cmp_greater_equal_i32_i16_ub a y) (String.join [sb (Gen.cmp_equal_i32_i16 a y), sb (Gen.cmp_not_equal_i32_i16 a y), sb (Gen.cmp_less_i32_i16 a y), sb (Gen.cmp_greater_i32_i16 a y), sb (Gen.cmp_less_equal_i32_i16 a y), sb (Gen.cmp_greater_equal_i32_i16 a y)]))
-  | "i32" => some (g (Gen.cmp_equal_i32_i32_ub a y && Gen.cmp_not_equal_i32_i32_ub a y && Gen.cmp_less_i32_i32_ub a y && Gen.cmp_greater_i32_i32_ub a y && Gen.cmp_less_equal_i32_i32_ub a y && Gen.cmp_greater_equal_i32_i32_ub a y) (String.join [sb (Gen.cmp_equal_i32_i32 a y), sb (Gen.cmp_not_equal_i32_i32 a y), sb (Gen.cmp_less_i32_i32 a y), sb (Gen.cmp_greater_i32_i32 a y), sb (Gen.cmp_less_equal_i32_i32 a y), sb (Gen.cmp_greater_equal_i32_i32 a y)]))
-  | "i64" => some (g (Gen.cmp_equal_i32_i64_ub a y && Gen.cmp_not_equal_i32_i64_ub a y && Gen.cmp_less_i32_i64_ub a y && Gen.cmp_greater_i32_i64_ub a y && Gen.cmp_less_equal_i32_i64_ub a y && Gen.cmp_greater_equal_i32_i64_ub a y) (String.join [sb (Gen.cmp_equal_i32_i64 a y), sb (Gen.cmp_not_equal_i32_i64 a y), sb (Gen.cmp_less_i32_i64 a y), sb (Gen.cmp_greater_i32_i64 a y), sb (Gen.cmp_less_equal_i32_i64 a y), sb (Gen.cmp_greater_equal_i32_i64 a y)]))
+  | "u8" => some (g (Gen.cmp_equal_i32_u8_ub a y && Gen.cmp_not_equal_i32_u8_ub a y && Gen.cmp_less_i32_u8_ub a y && Gen.cmp_greater_i32_u8_ub a y && Gen.cmp_less_equal_i32_u8_ub a y && Gen.cmp_greater_equal_i32_u8_ub a y) (fun _ => String.join [sb (Gen.cmp_equal_i32_u8 a y), sb (Gen.cmp_not_equal_i32_u8 a y), sb (Gen.cmp_less_i32_u8 a y), sb (Gen.cmp_greater_i32_u8 a y), sb (Gen.cmp_less_equal_i32_u8 a y), sb (Gen.cmp_greater_equal_i32_u8 a y)]))
+  | "u16" => some (g (Gen.cmp_equal_i32_u16_ub a y && Gen.cmp_not_equal_i32_u16_ub a y && Gen.cmp_less_i32_u16_ub a y && Gen.cmp_greater_i32_u16_ub a y && Gen.cmp_less_equal_i32_u16_ub a y && Gen.cmp_greater_equal_i32_u16_ub a y) (fun _ => String.join [sb (Gen.cmp_equal_i32_u16 a y), sb (Gen.cmp_not_equal_i32_u16 a y), sb (Gen.cmp_less_i32_u16 a y), sb (Gen.cmp_greater_i32_u16 a y), sb (Gen.cmp_less_equal_i32_u16 a y), sb (Gen.cmp_greater_equal_i32_u16 a y)]))
+  | "u32" => some (g (Gen.cmp_equal_i32_u32_ub a y && Gen.cmp_not_equal_i32_u32_ub a y && Gen.cmp_less_i32_u32_ub a y && Gen.cmp_greater_i32_u32_ub a y && Gen.cmp_less_equal_i32_u32_ub a y && Gen.cmp_greater_equal_i32_u32_ub a y) (fun _ => String.join [sb (Gen.cmp_equal_i32_u32 a y), sb (Gen.cmp_not_equal_i32_u32 a y), sb (Gen.cmp_less_i32_u32 a y), sb (Gen.cmp_greater_i32_u32 a y), sb (Gen.cmp_less_equal_i32_u32 a y), sb (Gen.cmp_greater_equal_i32_u32 a y)]))
+  | "u64" => some (g (Gen.cmp_equal_i32_u64_ub a y && Gen.cmp_not_equal_i32_u64_ub a y && Gen.cmp_less_i32_u64_ub a y && Gen.cmp_greater_i32_u64_ub a y && Gen.cmp_less_equal_i32_u64_ub a y && Gen.cmp_greater_equal_i32_u64_ub a y) (fun _ => String.join [sb (Gen.cmp_equal_i32_u64 a y), sb (Gen.cmp_not_equal_i32_u64 a y), sb (Gen.cmp_less_i32_u64 a y), sb (Gen.cmp_greater_i32_u64 a y), sb (Gen.cmp_less_equal_i32_u64 a y), sb (Gen.cmp_greater_equal_i32_u64 a y)]))
+  | "i8" => some (g (Gen.cmp_equal_i32_i8_ub a y && Gen.cmp_not_equal_i32_i8_ub a y && Gen.cmp_less_i32_i8_ub a y && Gen.cmp_greater_i32_i8_ub a y && Gen.cmp_less_equal_i32_i8_ub a y && Gen.cmp_greater_equal_i32_i8_ub a y) (fun _ => String.join [sb (Gen.cmp_equal_i32_i8 a y), sb (Gen.cmp_not_equal_i32_i8 a y), sb (Gen.cmp_less_i32_i8 a y), sb (Gen.cmp_greater_i32_i8 a y), sb (Gen.cmp_less_equal_i32_i8 a y), sb (Gen.cmp_greater_equal_i32_i8 a y)]))
+  | "i16" => some (g (Gen.cmp_equal_i32_i16_ub a y && Gen.cmp_not_equal_i32_i16_ub a y && Gen.cmp_less_i32_i16_ub a y && Gen.cmp_greater_i32_i16_ub a y && Gen.cmp_less_equal_i32_i16_ub a y && Gen.cmp_greater_equal_i32_i16_ub a y) (fun _ => String.join [sb (Gen.cmp_equal_i32_i16 a y), sb (Gen.cmp_not_equal_i32_i16 a y), sb (Gen.cmp_less_i32_i16 a y), sb (Gen.cmp_greater_i32_i16 a y), sb (Gen.cmp_less_equal_i32_i16 a y), sb (Gen.cmp_greater_equal_i32_i16 a y)]))
+  | "i32" => some (g (Gen.cmp_equal_i32_i32_ub a y && Gen.cmp_not_equal_i32_i32_ub a y && Gen.cmp_less_i32_i32_ub a y && Gen.cmp_greater_i32_i32_ub a y && Gen.cmp_less_equal_i32_i32_ub a y && Gen.cmp_greater_equal_i32_i32_ub a y) (fun _ => String.join [sb (Gen.cmp_equal_i32_i32 a y), sb (Gen.cmp_not_equal_i32_i32 a y), sb (Gen.cmp_less_i32_i32 a y), sb (Gen.cmp_greater_i32_i32 a y), sb (Gen.cmp_less_equal_i32_i32 a y), sb (Gen.cmp_greater_equal_i32_i32 a y)]))
+  | "i64" => some (g (Gen.cmp_equal_i32_i64_ub a y && Gen.cmp_not_equal_i32_i64_ub a y && Gen.cmp_less_i32_i64_ub a y && Gen.cmp_greater_i32_i64_ub a y && Gen.cmp_less_equal_i32_i64_ub a y && Gen.cmp_greater_equal_i32_i64_ub a y) (fun _ => String.join [sb (Gen.cmp_equal_i32_i64 a y), sb (Gen.cmp_not_equal_i32_i64 a y), sb (Gen.cmp_less_i32_i64 a y), sb (Gen.cmp_greater_i32_i64 a y), sb (Gen.cmp_less_equal_i32_i64 a y), sb (Gen.cmp_greater_equal_i32_i64 a y)]))
   | _ => none
 
 def p_saturate_cast_i32 (ty : String) (a : Int) : Option String :=
   match ty with
-  | "u8" => some (g (Gen.saturate_cast_i32_u8_ub a) (toString (Gen.saturate_cast_i32_u8 a)))
-  | "u16" => some (g (Gen.saturate_cast_i32_u16_ub a) (toString (Gen.saturate_cast_i32_u16 a)))
-  | "u32" => some (g (Gen.saturate_cast_i32_u32_ub a) (toString (Gen.saturate_cast_i32_u32 a)))
-  | "u64" => some (g (Gen.saturate_cast_i32_u64_ub a) (toString (Gen.saturate_cast_i32_u64 a)))
-  | "i8" => some (g (Gen.saturate_cast_i32_i8_ub a) (toString (Gen.saturate_cast_i32_i8 a)))
-  | "i16" => some (g (Gen.saturate_cast_i32_i16_ub a) (toString (Gen.saturate_cast_i32_i16 a)))
-  | "i32" => some (g (Gen.saturate_cast_i32_i32_ub a) (toString (Gen.saturate_cast_i32_i32 a)))
-  | "i64" => some (g (Gen.saturate_cast_i32_i64_ub a) (toString (Gen.saturate_cast_i32_i64 a)))
+  | "u8" => some (g (Gen.saturate_cast_i32_u8_ub a) (fun _ => toString (Gen.saturate_cast_i32_u8 a)))
+  | "u16" => some (g (Gen.saturate_cast_i32_u16_ub a) (fun _ => toString (Gen.saturate_cast_i32_u16 a)))
+  | "u32" => some (g (Gen.saturate_cast_i32_u32_ub a) (fun _ => toString (Gen.saturate_cast_i32_u32 a)))
+  | "u64" => some (g (Gen.saturate_cast_i32_u64_ub a) (fun _ => toString (Gen.saturate_cast_i32_u64 a)))
+  | "i8" => some (g (Gen.saturate_cast_i32_i8_ub a) (fun _ => toString (Gen.saturate_cast_i32_i8 a)))
+  | "i16" => some (g (Gen.saturate_cast_i32_i16_ub a) (fun _ => toString (Gen.saturate_cast_i32_i16 a)))
+  | "i32" => some (g (Gen.saturate_cast_i32_i32_ub a) (fun _ => toString (Gen.saturate_cast_i32_i32 a)))
+  | "i64" => some (g (Gen.saturate_cast_i32_i64_ub a) (fun _ => toString (Gen.saturate_cast_i32_i64 a)))
   | _ => none
 
 def p_in_range_i32 (ty : String) (a : Int) : Option String :=
   match ty with
-  | "u8" => some (g (Gen.in_range_i32_u8_ub a) (sb (Gen.in_range_i32_u8 a)))
-  | "u16" => some (g (Gen.in_range_i32_u16_ub a) (sb (Gen.in_range_i32_u16 a)))
-  | "u32" => some (g (Gen.in_range_i32_u32_ub a) (sb (Gen.in_range_i32_u32 a)))
-  | "u64" => some (g (Gen.in_range_i32_u64_ub a) (sb (Gen.in_range_i32_u64 a)))
-  | "i8" => some (g (Gen.in_range_i32_i8_ub a) (sb (Gen.in_range_i32_i8 a)))
-  | "i16" => some (g (Gen.in_range_i32_i16_ub a) (sb (Gen.in_range_i32_i16 a)))
-  | "i32" => some (g (Gen.in_range_i32_i32_ub a) (sb (Gen.in_range_i32_i32 a)))
-  | "i64" => some (g (Gen.in_range_i32_i64_ub a) (sb (Gen.in_range_i32_i64 a)))
+  | "u8" => some (g (Gen.in_range_i32_u8_ub a) (fun _ => sb (Gen.in_range_i32_u8 a)))
+  | "u16" => some (g (Gen.in_range_i32_u16_ub a) (fun _ => sb (Gen.in_range_i32_u16 a)))
+  | "u32" => some (g (Gen.in_range_i32_u32_ub a) (fun _ => sb (Gen.in_range_i32_u32 a)))
+  | "u64" => some (g (Gen.in_range_i32_u64_ub a) (fun _ => sb (Gen.in_range_i32_u64 a)))
+  | "i8" => some (g (Gen.in_range_i32_i8_ub a) (fun _ => sb (Gen.in_range_i32_i8 a)))
+  | "i16" => some (g (Gen.in_range_i32_i16_ub a) (fun _ => sb (Gen.in_range_i32_i16 a)))
+  | "i32" => some (g (Gen.in_range_i32_i32_ub a) (fun _ => sb (Gen.in_range_i32_i32 a)))
+  | "i64" => some (g (Gen.in_range_i32_i64_ub a) (fun _ => sb (Gen.in_range_i32_i64 a)))
   | _ => none
 
 def p_cmp_i64 (ty : String) (a y : Int) : Option String :=
   match ty with
-  | "u8" => some (g (Gen.cmp_equal_i64_u8_ub a y && Gen.cmp_not_equal_i64_u8_ub a y && Gen.cmp_less_i64_u8_ub a y && Gen.cmp_greater_i64_u8_ub a y && Gen.cmp_less_equal_i64_u8_ub a y && Gen.cmp_greater_equal_i64_u8_ub a y) (String.join [sb (Gen.cmp_equal_i64_u8 a y), sb (Gen.cmp_not_equal_i64_u8 a y), sb (Gen.cmp_less_i64_u8 a y), sb (Gen.cmp_greater_i64_u8 a y), sb (Gen.cmp_less_equal_i64_u8 a y), sb (Gen.cmp_greater_equal_i64_u8 a y)]))
-  | "u16" => some (g (Gen.cmp_equal_i64_u16_ub a y && Gen.cmp_not_equal_i64_u16_ub a y && Gen.cmp_less_i64_u16_ub a y && Gen.cmp_greater_i64_u16_ub a y && Gen.cmp_less_equal_i64_u16_ub a y && Gen.cmp_greater_equal_i64_u16_ub a y) (String.join [sb (Gen.cmp_equal_i64_u16 a y), sb (Gen.cmp_not_equal_i64_u16 a y), sb (Gen.cmp_less_i64_u16 a y), sb (Gen.cmp_greater_i64_u16 a y), sb (Gen.cmp_less_equal_i64_u16 a y), sb (Gen.cmp_greater_equal_i64_u16 a y)]))
-  | "u32" => some (g (Gen.cmp_equal_i64_u32_ub a y && Gen.cmp_not_equal_i64_u32_ub a y && Gen.cmp_less_i64_u32_ub a y && Gen.cmp_greater_i64_u32_ub a y && Gen.cmp_less_equal_i64_u32_ub a y && Gen.cmp_greater_equal_i64_u32_ub a y) (String.join [sb (Gen.cmp_equal_i64_u32 a y), sb (Gen.cmp_not_equal_i64_u32 a y), sb (Gen.cmp_less_i64_u32 a y), sb (Gen.cmp_greater_i64_u32 a y), sb (Gen.cmp_less_equal_i64_u32 a y), sb (Gen.cmp_greater_equal_i64_u32 a y)]))
-  | "u64" => some (g (Gen.cmp_equal_i64_u64_ub a y && Gen.cmp_not_equal_i64_u64_ub a y && Gen.cmp_less_i64_u64_ub a y && Gen.cmp_greater_i64_u64_ub a y && Gen.cmp_less_equal_i64_u64_ub a y && Gen.cmp_greater_equal_i64_u64_ub a y) (String.join [sb (Gen.cmp_equal_i64_u64 a y), sb (Gen.cmp_not_equal_i64_u64 a y), sb (Gen.cmp_less_i64_u64 a y), sb (Gen.cmp_greater_i64_u64 a y), sb (Gen.cmp_less_equal_i64_u64 a y), sb (Gen.cmp_greater_equal_i64_u64 a y)]))
-  | "i8" => some (g (Gen.cmp_equal_i64_i8_ub a y && Gen.cmp_not_equal_i64_i8_ub a y && Gen.cmp_less_i64_i8_ub a y && Gen.cmp_greater_i64_i8_ub a y && Gen.cmp_less_equal_i64_i8_ub a y && Gen.cmp_greater_equal_i64_i8_ub a y) (String.join [sb (Gen.cmp_equal_i64_i8 a y), sb (Gen.cmp_not_equal_i64_i8 a y), sb (Gen.cmp_less_i64_i8 a y), sb (Gen.cmp_greater_i64_i8 a y), sb (Gen.cmp_less_equal_i64_i8 a y), sb (Gen.cmp_greater_equal_i64_i8 a y)]))
-  | "i16" => some (g (Gen.cmp_equal_i64_i16_ub a y && Gen.cmp_not_equal_i64_i16_ub a y && Gen.cmp_less_i64_i16_ub a y && Gen.cmp_greater_i64_i16_ub a y && Gen.cmp_less_equal_i64_i16_ub a y && Gen.cmp_greater_equal_i64_i16_ub a y) (String.join [sb (Gen.cmp_equal_i64_i16 a y), sb (Gen.cmp_not_equal_i64_i16 a y), sb (Gen.cmp_less_i64_i16 a y), sb (Gen.cmp_greater_i64_i16 a y), sb (Gen.cmp_less_equal_i64_i16 a y), sb (Gen.cmp_greater_equal_i64_i16 a y)]))
-  | "i32" => some (g (Gen.cmp_equal_i64_i32_ub a y && Gen.cmp_not_equal_i64_i32_ub a y && Gen.cmp_less_i64_i32_ub a y && Gen.cmp_greater_i64_i32_ub a y && Gen.cmp_less_equal_i64_i32_ub a y && Gen.cmp_greater_equal_i64_i32_ub a y) (String.join [sb (Gen.cmp_equal_i64_i32 a y), sb (Gen.cmp_not_equal_i64_i32 a y), sb (Gen.cmp_less_i64_i32 a y), sb (Gen.cmp_greater_i64_i32 a y), sb (Gen.cmp_less_equal_i64_i32 a y), sb (Gen.cmp_greater_equal_i64_i32 a y)]))
-  | "i64" => some (g (Gen.cmp_equal_i64_i64_ub a y && Gen.cmp_not_equal_i64_i64_ub a y && Gen.cmp_less_i64_i64_ub a y && Gen.cmp_greater_i64_i64_ub a y && Gen.cmp_less_equal_i64_i64_ub a y && Gen.cmp_greater_equal_i64_i64_ub a y) (String.join [sb (Gen.cmp_equal_i64_i64 a y), sb (Gen.cmp_not_equal_i64_i64 a y), sb (Gen.cmp_less_i64_i64 a y), sb (Gen.cmp_greater_i64_i64 a y), sb (Gen.cmp_less_equal_i64_i64 a y), sb (Gen.cmp_greater_equal_i64_i64 a y)]))
+  | "u8" => some (g (Gen.cmp_equal_i64_u8_ub a y && Gen.cmp_not_equal_i64_u8_ub a y && Gen.cmp_less_i64_u8_ub a y && Gen.cmp_greater_i64_u8_ub a y && Gen.cmp_less_equal_i64_u8_ub a y && Gen.cmp_greater_equal_i64_u8_ub a y) (fun _ => String.join [sb (Gen.cmp_equal_i64_u8 a y), sb (Gen.cmp_not_equal_i64_u8 a y), sb (Gen.cmp_less_i64_u8 a y), sb (Gen.cmp_greater_i64_u8 a y), sb (Gen.cmp_less_equal_i64_u8 a y), sb (Gen.cmp_greater_equal_i64_u8 a y)]))
+  | "u16" => some (g (Gen.cmp_equal_i64_u16_ub a y && Gen.cmp_not_equal_i64_u16_ub a y && Gen.cmp_less_i64_u16_ub a y && Gen.cmp_greater_i64_u16_ub a y && Gen.cmp_less_equal_i64_u16_ub a y && Gen.cmp_greater_equal_i64_u16_ub a y) (fun _ => String.join [sb (Gen.cmp_equal_i64_u16 a y), sb (Gen.cmp_not_equal_i64_u16 a y), sb (Gen.cmp_less_i64_u16 a y), sb (Gen.cmp_greater_i64_u16 a y), sb (Gen.cmp_less_equal_i64_u16 a y), sb (Gen.cmp_greater_equal_i64_u16 a y)]))
+  | "u32" => some (g (Gen.cmp_equal_i64_u32_ub a y && Gen.cmp_not_equal_i64_u32_ub a y && Gen.cmp_less_i64_u32_ub a y && Gen.cmp_greater_i64_u32_ub a y && Gen.cmp_less_equal_i64_u32_ub a y && Gen.cmp_greater_equal_i64_u32_ub a y) (fun _ => String.join [sb (Gen.cmp_equal_i64_u32 a y), sb (Gen.cmp_not_equal_i64_u32 a y), sb (Gen.cmp_less_i64_u32 a y), sb (Gen.cmp_greater_i64_u32 a y), sb (Gen.cmp_less_equal_i64_u32 a y), sb (Gen.cmp_greater_equal_i64_u32 a y)]))
+  | "u64" => some (g (Gen.cmp_equal_i64_u64_ub a y && Gen.cmp_not_equal_i64_u64_ub a y && Gen.cmp_less_i64_u64_ub a y && Gen.cmp_greater_i64_u64_ub a y && Gen.cmp_less_equal_i64_u64_ub a y && Gen.cmp_greater_equal_i64_u64_ub a y) (fun _ => String.join [sb (Gen.cmp_equal_i64_u64 a y), sb (Gen.cmp_not_equal_i64_u64 a y), sb (Gen.cmp_less_i64_u64 a y), sb (Gen.cmp_greater_i64_u64 a y), sb (Gen.cmp_less_equal_i64_u64 a y), sb (Gen.cmp_greater_equal_i64_u64 a y)]))
+  | "i8" => some (g (Gen.cmp_equal_i64_i8_ub a y && Gen.cmp_not_equal_i64_i8_ub a y && Gen.cmp_less_i64_i8_ub a y && Gen.cmp_greater_i64_i8_ub a y && Gen.cmp_less_equal_i64_i8_ub a y && Gen.cmp_greater_equal_i64_i8_ub a y) (fun _ => String.join [sb (Gen.cmp_equal_i64_i8 a y), sb (Gen.cmp_not_equal_i64_i8 a y), sb (Gen.cmp_less_i64_i8 a y), sb (Gen.cmp_greater_i64_i8 a y), sb (Gen.cmp_less_equal_i64_i8 a y), sb (Gen.cmp_greater_equal_i64_i8 a y)]))
+  | "i16" => some (g (Gen.cmp_equal_i64_i16_ub a y && Gen.cmp_not_equal_i64_i16_ub a y && Gen.cmp_less_i64_i16_ub a y && Gen.cmp_greater_i64_i16_ub a y && Gen.cmp_less_equal_i64_i16_ub a y && Gen.cmp_greater_equal_i64_i16_ub a y) (fun _ => String.join [sb (Gen.cmp_equal_i64_i16 a y), sb (Gen.cmp_not_equal_i64_i16 a y), sb (Gen.cmp_less_i64_i16 a y), sb (Gen.cmp_greater_i64_i16 a y), sb (Gen.cmp_less_equal_i64_i16 a y), sb (Gen.cmp_greater_equal_i64_i16 a y)]))
+  | "i32" => some (g (Gen.cmp_equal_i64_i32_ub a y && Gen.cmp_not_equal_i64_i32_ub a y && Gen.cmp_less_i64_i32_ub a y && Gen.cmp_greater_i64_i32_ub a y && Gen.cmp_less_equal_i64_i32_ub a y && Gen.cmp_greater_equal_i64_i32_ub a y) (fun _ => String.join [sb (Gen.cmp_equal_i64_i32 a y), sb (Gen.cmp_not_equal_i64_i32 a y), sb (Gen.cmp_less_i64_i32 a y), sb (Gen.cmp_greater_i64_i32 a y), sb (Gen.cmp_less_equal_i64_i32 a y), sb (Gen.cmp_greater_equal_i64_i32 a y)]))
+  | "i64" => some (g (Gen.cmp_equal_i64_i64_ub a y && Gen.cmp_not_equal_i64_i64_ub a y && Gen.cmp_less_i64_i64_ub a y && Gen.cmp_greater_i64_i64_ub a y && Gen.cmp_less_equal_i64_i64_ub a y && Gen.cmp_greater_equal_i64_i64_ub a y) (fun _ => String.join [sb (Gen.cmp_equal_i64_i64 a y), sb (Gen.cmp_not_equal_i64_i64 a y), sb (Gen.cmp_less_i64_i64 a y), sb (Gen.cmp_greater_i64_i64 a y), sb (Gen.cmp_less_equal_i64_i64 a y), sb (Gen.cmp_greater_equal_i64_i64 a y)]))
   | _ => none
 
 def p_saturate_cast_i64 (ty : String) (a : Int) : Option String :=
   match ty with
-  | "u8" => some (g (Gen.saturate_cast_i64_u8_ub a) (toString (Gen.saturate_cast_i64_u8 a)))
-  | "u16" => some (g (Gen.saturate_cast_i64_u16_ub a) (toString (Gen.saturate_cast_i64_u16 a)))
-  | "u32" => some (g (Gen.saturate_cast_i64_u32_ub a) (toString (Gen.saturate_cast_i64_u32 a)))
-  | "u64" => some (g (Gen.saturate_cast_i64_u64_ub a) (toString (Gen.saturate_cast_i64_u64 a)))
-  | "i8" => some (g (Gen.saturate_cast_i64_i8_ub a) (toString (Gen.saturate_cast_i64_i8 a)))
-  | "i16" => some (g (Gen.saturate_cast_i64_i16_ub a) (toString (Gen.saturate_cast_i64_i16 a)))
-  | "i32" => some (g (Gen.saturate_cast_i64_i32_ub a) (toString (Gen.saturate_cast_i64_i32 a)))
-  | "i64" => some (g (Gen.saturate_cast_i64_i64_ub a) (toString (Gen.saturate_cast_i64_i64 a)))
+  | "u8" => some (g (Gen.saturate_cast_i64_u8_ub a) (fun _ => toString (Gen.saturate_cast_i64_u8 a)))
+  | "u16" => some (g (Gen.saturate_cast_i64_u16_ub a) (fun _ => toString (Gen.saturate_cast_i64_u16 a)))
+  | "u32" => some (g (Gen.saturate_cast_i64_u32_ub a) (fun _ => toString (Gen.saturate_cast_i64_u32 a)))
+  | "u64" => some (g (Gen.saturate_cast_i64_u64_ub a) (fun _ => toString (Gen.saturate_cast_i64_u64 a)))
+  | "i8" => some (g (Gen.saturate_cast_i64_i8_ub a) (fun _ => toString (Gen.saturate_cast_i64_i8 a)))
+  | "i16" => some (g (Gen.saturate_cast_i64_i16_ub a) (fun _ => toString (Gen.saturate_cast_i64_i16 a)))
+  | "i32" => some (g (Gen.saturate_cast_i64_i32_ub a) (fun _ => toString (Gen.saturate_cast_i64_i32 a)))
+  | "i64" => some (g (Gen.saturate_cast_i64_i64_ub a) (fun _ => toString (Gen.saturate_cast_i64_i64 a)))
   | _ => none
 
 def p_in_range_i64 (ty : String) (a : Int) : Option String :=
   match ty with
-  | "u8" => some (g (Gen.in_range_i64_u8_ub a) (sb (Gen.in_range_i64_u8 a)))
-  | "u16" => some (g (Gen.in_range_i64_u16_ub a) (sb (Gen.in_range_i64_u16 a)))
-  | "u32" => some (g (Gen.in_range_i64_u32_ub a) (sb (Gen.in_range_i64_u32 a)))
-  | "u64" => some (g (Gen.in_range_i64_u64_ub a) (sb (Gen.in_range_i64_u64 a)))
-  | "i8" => some (g (Gen.in_range_i64_i8_ub a) (sb (Gen.in_range_i64_i8 a)))
-  | "i16" => some (g (Gen.in_range_i64_i16_ub a) (sb (Gen.in_range_i64_i16 a)))
-  | "i32" => some (g (Gen.in_range_i64_i32_ub a) (sb (Gen.in_range_i64_i32 a)))
-  | "i64" => some (g (Gen.in_range_i64_i64_ub a) (sb (Gen.in_range_i64_i64 a)))
+  | "u8" => some (g (Gen.in_range_i64_u8_ub a) (fun _ => sb (Gen.in_range_i64_u8 a)))
+  | "u16" => some (g (Gen.in_range_i64_u16_ub a) (fun _ => sb (Gen.in_range_i64_u16 a)))
+  | "u32" => some (g (Gen.in_range_i64_u32_ub a) (fun _ => sb (Gen.in_range_i64_u32 a)))
+  | "u64" => some (g (Gen.in_range_i64_u64_ub a) (fun _ => sb (Gen.in_range_i64_u64 a)))
+  | "i8" => some (g (Gen.in_range_i64_i8_ub a) (fun _ => sb (Gen.in_range_i64_i8 a)))
+  | "i16" => some (g (Gen.in_range_i64_i16_ub a) (fun _ => sb (Gen.in_range_i64_i16 a)))
+  | "i32" => some (g (Gen.in_range_i64_i32_ub a) (fun _ => sb (Gen.in_range_i64_i32 a)))
+  | "i64" => some (g (Gen.in_range_i64_i64_ub a) (fun _ => sb (Gen.in_range_i64_i64 a)))
   | _ => none
 
 def p_cmp (t u : String) (a y : Int) : Option String :=
